@@ -130,6 +130,12 @@ Proof.
     apply filter_len.
 Qed.
 
+Fixpoint take {A} (n : nat) (l : list A) : list A :=
+  match n, l with
+  | S m, x :: r => x :: take m r
+  | _, _ => []
+  end.
+
 (* within each family the relative order is preserved *)
 Lemma take_all {A} n (l : list A) : (length l <= n)%nat -> take n l = l.
 Proof.
@@ -207,474 +213,921 @@ Proof.
   rewrite Z.eqb_refl. cbn [app]. eexists. reflexivity.
 Qed.
 
-(* ---------- events of a round ---------- *)
+(* ================= the state machine ================= *)
 
-Definition evSs (ps : list (Z * Z)) : list word := map (fun p => evS (snd p)) ps.
-Definition reqs (cs : list (Z * Z)) : list word := flat_map (fun p => [evN (snd p) (fst p); evC (snd p)]) cs.
-
-Lemma n_addrs_app a b : n_addrs (a ++ b) = n_addrs a ++ n_addrs b. Proof. apply flat_map_app. Qed.
-Lemma n_scs_app a b : n_scs (a ++ b) = n_scs a ++ n_scs b. Proof. apply flat_map_app. Qed.
-Lemma c_scs_app a b : c_scs (a ++ b) = c_scs a ++ c_scs b. Proof. apply flat_map_app. Qed.
-Lemma s_scs_app a b : s_scs (a ++ b) = s_scs a ++ s_scs b. Proof. apply flat_map_app. Qed.
 Lemma u_events_app a b : u_events (a ++ b) = u_events a ++ u_events b. Proof. apply flat_map_app. Qed.
+Lemma s_scs_app a b : s_scs (a ++ b) = s_scs a ++ s_scs b. Proof. apply flat_map_app. Qed.
+Lemma n_scs_app a b : n_scs (a ++ b) = n_scs a ++ n_scs b. Proof. apply flat_map_app. Qed.
 
-Lemma ext_S ps : n_addrs (evSs ps) = [] /\ n_scs (evSs ps) = [] /\ c_scs (evSs ps) = [] /\
-  u_events (evSs ps) = [] /\ s_scs (evSs ps) = map snd ps.
+Lemma ext_S l : u_events (map evS l) = [] /\ n_scs (map evS l) = [] /\ s_scs (map evS l) = map zn l.
+Proof. induction l as [|x r [A [B C]]]; [repeat split; reflexivity|]. repeat split; try assumption. cbn. f_equal. exact C. Qed.
+Lemma ext_C l : u_events (map evC l) = [] /\ n_scs (map evC l) = [] /\ s_scs (map evC l) = [].
+Proof. induction l as [|x r [A [B C]]]; [repeat split; reflexivity|]. repeat split; assumption. Qed.
+
+(* only TRANSIENT_FAILURE is published, and no sub-channel... *)
+Definition tf_only (e : list word) : Prop := forallb (fun u : Z * Z => fst u =? TF) (u_events e) = true.
+
+Lemma tf_only_app a b : tf_only a -> tf_only b -> tf_only (a ++ b).
+Proof. unfold tf_only. intros A B. rewrite u_events_app, forallb_app, A, B. reflexivity. Qed.
+Lemma tf_only_nil : tf_only []. Proof. reflexivity. Qed.
+Lemma tf_only_C l : tf_only (map evC l).
+Proof. unfold tf_only. destruct (ext_C l) as [A _]. rewrite A. reflexivity. Qed.
+Lemma tf_only_S l : tf_only (map evS l).
+Proof. unfold tf_only. destruct (ext_S l) as [A _]. rewrite A. reflexivity. Qed.
+
+Lemma update_state_tf s pk : tf_only (snd (update_state s TF pk)).
+Proof. unfold update_state, force_state. destruct ((TF =? bstate s) && negb (bstate s =? TF)); reflexivity. Qed.
+
+Lemma end_first_pass_tf s : tf_only (snd (end_first_pass s)).
 Proof.
-  induction ps as [|p r [A [B [C [D E]]]]]; [repeat split; reflexivity|].
-  repeat split; try assumption. cbn. f_equal. exact E.
+  unfold end_first_pass. destruct (al_valid s); [reflexivity|].
+  destruct (forallb _ (subs s)); [|reflexivity].
+  pose proof (update_state_tf (set_pass s false (numTF s)) (-1)) as H.
+  destruct (update_state (set_pass s false (numTF s)) TF (-1)) as [s2 e]. cbn [snd] in *.
+  apply tf_only_app; [exact H|apply tf_only_C].
 Qed.
 
-Lemma ext_reqs cs : n_addrs (reqs cs) = map fst cs /\ n_scs (reqs cs) = map snd cs /\
-  c_scs (reqs cs) = map snd cs /\ u_events (reqs cs) = [] /\ s_scs (reqs cs) = [].
+Lemma req_loop_tf fuel : forall s, tf_only (snd (req_loop fuel s)).
 Proof.
-  induction cs as [|p r [A [B [C [D E]]]]]; [repeat split; reflexivity|].
-  repeat split; try assumption; cbn; f_equal; assumption.
+  induction fuel as [|f IH]; intros s; [reflexivity|]. cbn [req_loop].
+  destruct (lookup s (cur_addr s)) as [sc|].
+  - destruct (d_raw (sds s sc) =? IDLE); [reflexivity|].
+    destruct (d_raw (sds s sc) =? TF).
+    + destruct (al_increment (upd_sd s sc (d_set_failed true))) as [s3 more]. destruct more.
+      * specialize (IH s3). destruct (req_loop f s3). exact IH.
+      * pose proof (end_first_pass_tf s3) as H. destruct (end_first_pass s3). exact H.
+    + destruct (d_raw (sds s sc) =? CONNECTING); reflexivity.
+  - set (s1 := set_subs _ _). set (sc := nsc s).
+    destruct (d_raw (sds s1 sc) =? IDLE); [reflexivity|].
+    destruct (d_raw (sds s1 sc) =? TF).
+    + destruct (al_increment (upd_sd s1 sc (d_set_failed true))) as [s3 more]. destruct more.
+      * specialize (IH s3). destruct (req_loop f s3). cbn [snd] in *. apply (tf_only_app [_]); [reflexivity|exact IH].
+      * pose proof (end_first_pass_tf s3) as H. destruct (end_first_pass s3). cbn [snd] in *.
+        apply (tf_only_app [_]); [reflexivity|exact H].
+    + destruct (d_raw (sds s1 sc) =? CONNECTING); reflexivity.
 Qed.
 
-Lemma number_fst n l : map fst (number n l) = l.
-Proof. revert n. induction l as [|a r IH]; intros n; [reflexivity|]. cbn. f_equal. apply IH. Qed.
-Lemma number_len n l : length (number n l) = length l.
-Proof. revert n. induction l as [|a r IH]; intros n; [reflexivity|]. cbn. f_equal. apply IH. Qed.
-
-Lemma cbr_S ps r b : connecting_before_ready (evSs ps ++ r) b = connecting_before_ready r b.
-Proof. induction ps as [|p q IH]; [reflexivity|exact IH]. Qed.
-
-Lemma cbr_reqs cs r b : cs <> [] -> connecting_before_ready (reqs cs ++ r) b = connecting_before_ready r true.
+Lemma request_tf s : tf_only (snd (request_connection s)).
+Proof. unfold request_connection. destruct (al_valid s); [apply req_loop_tf|reflexivity]. Qed.
+Lemma start_tf s : tf_only (snd (start_first_pass s)).
+Proof. unfold start_first_pass. apply request_tf. Qed.
+Lemma resolver_error_tf s : tf_only (snd (resolver_error s)).
+Proof. unfold resolver_error. destruct (_ && _); [reflexivity|apply update_state_tf]. Qed.
+Lemma timer_fire_tf s : tf_only (snd (timer_fire s)).
 Proof.
-  intros H. destruct cs as [|p q]; [congruence|]. clear H. revert p b.
-  induction q as [|p' q IH]; intros p b; [reflexivity|]. cbn. apply (IH p' true).
+  unfold timer_fire. destruct (timer s); [|reflexivity].
+  destruct (al_increment (set_timer s false)) as [s2 more]. destruct more; [apply request_tf|reflexivity].
 Qed.
 
-(* ---------- sublist ---------- *)
+(* ---------- invariant: the active sub-channels are exactly those not shut down ---------- *)
 
-Lemma take_In {A} n (l : list A) x : In x (take n l) -> In x l.
+Definition shutf (s : st) (sc : nat) : bool := d_shut (sds s sc).
+Definition Alive (s : st) : Prop :=
+  (forall sc, In sc (subs s) -> (sc < nsc s)%nat /\ shutf s sc = false) /\
+  (forall sc, (sc < nsc s)%nat -> ~ In sc (subs s) -> shutf s sc = true).
+Definition same_alive (s s' : st) : Prop :=
+  subs s' = subs s /\ nsc s' = nsc s /\ forall sc, shutf s' sc = shutf s sc.
+
+Lemma same_alive_refl s : same_alive s s.
+Proof. repeat split. Qed.
+Lemma same_alive_trans a b c : same_alive a b -> same_alive b c -> same_alive a c.
+Proof. intros [A1 [A2 A3]] [B1 [B2 B3]]. split; [congruence|]. split; [congruence|]. intros sc. rewrite B3. apply A3. Qed.
+Lemma Alive_same s s' : same_alive s s' -> Alive s -> Alive s'.
 Proof.
-  revert l. induction n as [|n IH]; intros [|a r] H; cbn in *; try contradiction.
-  destruct H as [->|H]; [left; reflexivity|right; apply IH; exact H].
+  intros [A1 [A2 A3]] [H1 H2]. split; intros sc; rewrite A1, A2, A3; [apply H1|apply H2].
 Qed.
 
-Lemma sublist_take_filter (p : Z -> bool) l : forall n, sublist_b (take n (filter p l)) l = true.
+Ltac sa := unfold same_alive, shutf; cbn; repeat split; try reflexivity.
+
+Lemma sa_upd s sc g : (forall d, d_shut (g d) = d_shut d) -> same_alive s (upd_sd s sc g).
+Proof. intros H. sa. intros x. unfold fupd. destruct (Nat.eqb x sc); [apply H|reflexivity]. Qed.
+Lemma sa_list s l i : same_alive s (set_list s l i). Proof. sa. Qed.
+Lemma sa_pass s a b : same_alive s (set_pass s a b). Proof. sa. Qed.
+Lemma sa_timer s b : same_alive s (set_timer s b). Proof. sa. Qed.
+Lemma sa_sticky s b : same_alive s (set_sticky s b). Proof. sa. Qed.
+Lemma sa_incr s : same_alive s (fst (al_increment s)).
+Proof. unfold al_increment. destruct (al_valid s); sa. Qed.
+Lemma sa_seek s a : same_alive s (fst (al_seek s a)).
+Proof. unfold al_seek. destruct (index_of a (addrs s)); sa. Qed.
+Lemma sa_update s v pk : same_alive s (fst (update_state s v pk)).
+Proof. unfold update_state, force_state. destruct (_ && _); sa. Qed.
+Lemma sa_force s v pk : same_alive s (fst (force_state s v pk)).
+Proof. sa. Qed.
+Lemma sa_sched s : same_alive s (schedule_next s).
+Proof. unfold schedule_next. destruct (al_has_next _); sa. Qed.
+Lemma sa_efp s : same_alive s (fst (end_first_pass s)).
 Proof.
-  induction l as [|a r IH]; intros n; [destruct n; reflexivity|].
-  cbn [filter]. destruct (p a) eqn:P.
-  - destruct n as [|m]; [reflexivity|]. cbn [take sublist_b]. rewrite Z.eqb_refl. apply IH.
-  - specialize (IH n). destruct (take n (filter p r)) as [|x t] eqn:E; [reflexivity|].
-    cbn [sublist_b]. destruct (Z.eqb_spec x a) as [->|_]; [|exact IH].
-    exfalso. assert (In a (filter p r)) by (apply (take_In n); rewrite E; left; reflexivity).
-    apply filter_In in H. destruct H as [_ H]. congruence.
+  unfold end_first_pass. destruct (al_valid s); [apply same_alive_refl|].
+  destruct (forallb _ _); [|apply same_alive_refl].
+  pose proof (sa_update (set_pass s false (numTF s)) TF (-1)) as H.
+  destruct (update_state (set_pass s false (numTF s)) TF (-1)) as [s2 e]. cbn [fst] in *.
+  eapply same_alive_trans; [apply sa_pass|]. eapply same_alive_trans; [exact H|apply sa_sticky].
+Qed.
+Lemma sa_resolver_error s : same_alive s (fst (resolver_error s)).
+Proof. unfold resolver_error. destruct (_ && _); [apply same_alive_refl|apply sa_update]. Qed.
+
+Lemma Alive_init : Alive init.
+Proof. split; intros sc H; [destruct H|cbn in H; lia]. Qed.
+
+(* creation of a sub-channel *)
+Lemma Alive_create s a : Alive s ->
+  Alive (set_subs (set_sds s (fupd (sds s) (nsc s) (fun _ => mksd a IDLE IDLE false false)) (S (nsc s))) (subs s ++ [nsc s])).
+Proof.
+  intros [H1 H2]. split; intros sc; unfold shutf; cbn; unfold fupd.
+  - intros Hin. apply in_app_or in Hin. destruct Hin as [Hin|[<-|[]]].
+    + destruct (H1 sc Hin) as [A B]. split; [lia|]. destruct (Nat.eqb_spec sc (nsc s)); [lia|exact B].
+    + rewrite Nat.eqb_refl. split; [lia|reflexivity].
+  - intros Hlt Hn. destruct (Nat.eqb_spec sc (nsc s)) as [->|Hne].
+    + exfalso. apply Hn. apply in_or_app. right. left. reflexivity.
+    + apply H2; [lia|]. intros X. apply Hn. apply in_or_app. left. exact X.
 Qed.
 
-Lemma sublist_filter (p : Z -> bool) l : sublist_b (filter p l) l = true.
+Lemma req_loop_alive fuel : forall s, Alive s -> Alive (fst (req_loop fuel s)).
 Proof.
-  rewrite <- (take_all (length (filter p l)) (filter p l)) at 1 by lia. apply sublist_take_filter.
+  induction fuel as [|f IH]; intros s A; [exact A|]. cbn [req_loop].
+  assert (G : forall s1 sc e1, Alive s1 ->
+    Alive (fst (if d_raw (sds s1 sc) =? IDLE then (schedule_next s1, e1 ++ [evC sc])
+     else if d_raw (sds s1 sc) =? TF
+          then let '(s3, more) := al_increment (upd_sd s1 sc (d_set_failed true)) in
+               if more then let '(s4, e4) := req_loop f s3 in (s4, e1 ++ e4)
+               else let '(s4, e4) := end_first_pass s3 in (s4, e1 ++ e4)
+          else if d_raw (sds s1 sc) =? CONNECTING then (schedule_next s1, e1) else (s1, e1)))).
+  { intros s1 sc e1 A1.
+    destruct (d_raw (sds s1 sc) =? IDLE); [exact (Alive_same _ _ (sa_sched s1) A1)|].
+    destruct (d_raw (sds s1 sc) =? TF).
+    - assert (A2 : Alive (fst (al_increment (upd_sd s1 sc (d_set_failed true))))).
+      { eapply Alive_same; [apply sa_incr|]. eapply Alive_same; [apply sa_upd; reflexivity|exact A1]. }
+      destruct (al_increment (upd_sd s1 sc (d_set_failed true))) as [s3 more]. cbn [fst] in A2. destruct more.
+      + specialize (IH s3 A2). destruct (req_loop f s3). exact IH.
+      + pose proof (Alive_same _ _ (sa_efp s3) A2) as X. destruct (end_first_pass s3). exact X.
+    - destruct (d_raw (sds s1 sc) =? CONNECTING); [exact (Alive_same _ _ (sa_sched s1) A1)|exact A1]. }
+  destruct (lookup s (cur_addr s)) as [sc|].
+  - apply (G s sc [] A).
+  - apply (G _ (nsc s) [evN (nsc s) (cur_addr s)] (Alive_create s (cur_addr s) A)).
 Qed.
 
-Lemma word_eqb_refl w : word_eqb w w = true.
-Proof. induction w as [|z w IH]; [reflexivity|]. cbn. rewrite Z.eqb_refl. exact IH. Qed.
+Lemma request_alive s : Alive s -> Alive (fst (request_connection s)).
+Proof. intros A. unfold request_connection. destruct (al_valid s); [apply req_loop_alive; exact A|exact A]. Qed.
 
-Lemma pass_facts s retained F k cn n_new :
-  let success := (0 <=? k) && (k <? Z.of_nat (length F)) in
-  let A := if success then take (S (Z.to_nat k)) F else F in
-  let created := number (nsc s) A in
-  let e := snd (pass s retained F k cn n_new) in
-  n_addrs e = A /\ n_scs e = map snd created /\ c_scs e = map snd created /\
-  (created = [] -> e = [evU TF (-1)]) /\
-  (created <> [] -> success = false ->
-     s_scs e = [] /\ u_events e = [(TF, -1)]) /\
-  (success = true -> exists win, created = removelast created ++ [win] /\
-     s_scs e = map snd (retained ++ removelast created) /\
-     u_events e = [(READY, snd win)]) /\
-  connecting_before_ready e false = None.
+Lemma sa_start_prefix s :
+  same_alive s (set_sds (set_pass s true 0)
+     (fun x => if existsb (Nat.eqb x) (subs (set_pass s true 0)) then d_set_failed false (sds (set_pass s true 0) x)
+               else sds (set_pass s true 0) x) (nsc (set_pass s true 0))).
+Proof. sa. intros sc. destruct (existsb _ _); reflexivity. Qed.
+
+Lemma start_alive s : Alive s -> Alive (fst (start_first_pass s)).
+Proof. intros A. unfold start_first_pass. apply request_alive. exact (Alive_same _ _ (sa_start_prefix s) A). Qed.
+
+(* Shutdown of a part l of the active sub-channels, keeping the rest *)
+Lemma Alive_shutdown s l keep : Alive s ->
+  (forall sc, In sc (subs s) -> In sc l \/ In sc keep) -> (forall sc, In sc keep -> In sc (subs s) /\ ~ In sc l) ->
+  Alive (set_subs (fst (shutdown_all s l)) keep).
 Proof.
-  cbv zeta. unfold pass.
-  set (success := (0 <=? k) && (k <? Z.of_nat (length F))).
-  set (A := if success then take (S (Z.to_nat k)) F else F).
-  assert (HA : success = true -> A <> []).
-  { intros Hs. unfold A. rewrite Hs. unfold success in Hs. apply andb_true_iff in Hs. destruct Hs as [Hs0 Hs].
-    apply Z.ltb_lt in Hs. apply Z.leb_le in Hs0. destruct F; [cbn in Hs; lia|]. cbn. discriminate. }
-  pose proof (number_fst (nsc s) A) as NF.
-  destruct (number (nsc s) A) as [|first rest] eqn:EC.
-  - cbn [snd]. assert (A = []) as EA by (rewrite <- NF; reflexivity).
-    repeat split; try reflexivity; try congruence.
-    + rewrite EA. reflexivity.
-    + intros Hs. exfalso. exact (HA Hs EA).
-  - change (flat_map (fun p : Z * Z => [evN (snd p) (fst p); evC (snd p)]) [first]) with (reqs [first]).
-    change (flat_map (fun p : Z * Z => [evN (snd p) (fst p); evC (snd p)]) rest) with (reqs rest).
-    change (map (fun p : Z * Z => evS (snd p)) (retained ++ removelast (first :: rest)))
-      with (evSs (retained ++ removelast (first :: rest))).
-    destruct (ext_reqs [first]) as [R1 [R2 [R3 [R4 R5]]]].
-    destruct (ext_reqs rest) as [Q1 [Q2 [Q3 [Q4 Q5]]]].
-    destruct (ext_S (retained ++ removelast (first :: rest))) as [S1 [S2 [S3 [S4 S5]]]].
-    assert (UC : forall (b : bool), n_addrs (connecting_report b) = [] /\
-                 n_scs (connecting_report b) = [] /\ c_scs (connecting_report b) = [] /\
-                 s_scs (connecting_report b) = [] /\ u_events (connecting_report b) = [] /\
-                 connecting_report b = [])
-      by (intros []; repeat split; reflexivity).
-    destruct (UC cn) as [C1 [C2 [C3 [C4 [C5 C6]]]]].
-    destruct success eqn:Hs; cbn [snd].
-    + rewrite !n_addrs_app, !n_scs_app, !c_scs_app, !s_scs_app, !u_events_app.
-      rewrite R1, R2, R3, R4, R5, Q1, Q2, Q3, Q4, Q5, S1, S2, S3, S4, S5, C1, C2, C3, C4, C5.
-      cbn [map app]. rewrite !app_nil_r.
-      repeat split; try reflexivity; try congruence.
-      * rewrite <- NF. reflexivity.
-      * intros _. exists (last (first :: rest) first). split; [apply app_removelast_last; discriminate|].
-        split; [reflexivity|]. cbn. reflexivity.
-      * rewrite C6. cbn [app]. rewrite <- !app_assoc.
-        rewrite (cbr_reqs [first]) by discriminate.
-        destruct rest as [|r1 rest']; [|rewrite (cbr_reqs (r1 :: rest')) by discriminate];
-          cbn [reqs flat_map app]; rewrite cbr_S; reflexivity.
-    + rewrite !n_addrs_app, !n_scs_app, !c_scs_app, !s_scs_app, !u_events_app.
-      rewrite R1, R2, R3, R4, R5, Q1, Q2, Q3, Q4, Q5, C1, C2, C3, C4, C5.
-      cbn [map app]. rewrite !app_nil_r.
-      repeat split; try reflexivity; try congruence.
-      * rewrite <- NF. reflexivity.
-      * rewrite C6. cbn [app]. rewrite <- !app_assoc.
-        rewrite (cbr_reqs [first]) by discriminate.
-        destruct rest as [|r1 rest']; [|rewrite (cbr_reqs (r1 :: rest')) by discriminate]; reflexivity.
+  intros [H1 H2] Hc Hk. split; intros sc; unfold shutf, shutdown_all; cbn.
+  - intros Hin. destruct (Hk sc Hin) as [Hs Hn]. destruct (H1 sc Hs) as [A B]. split; [exact A|].
+    destruct (existsb (Nat.eqb sc) l) eqn:E; [|exact B].
+    apply existsb_exists in E. destruct E as [y [Hy Ey]]. apply Nat.eqb_eq in Ey. subst y. contradiction.
+  - intros Hlt Hn. destruct (existsb (Nat.eqb sc) l) eqn:E; [reflexivity|].
+    apply H2; [exact Hlt|]. intros Hs. destruct (Hc sc Hs) as [X|X]; [|contradiction].
+    assert (existsb (Nat.eqb sc) l = true) by (apply existsb_exists; exists sc; split; [exact X|apply Nat.eqb_refl]).
+    congruence.
 Qed.
 
-Definition rdy_list (s : st) : list (Z * Z) := match rdy s with Some p => [p] | None => [] end.
-
-Lemma pass_chunk_ok s l' k (cn : bool) n_new :
-  let retained := filter (fun p => memz (fst p) l') (subs s) in
-  let removed := filter (fun p => negb (memz (fst p) l')) (subs s ++ rdy_list s) in
-  let F := filter (fun a => negb (has_addr a retained)) l' in
-  let pre := if cn then [evU CONNECTING (-1)] else [] in
-  let X := [[12; 0]] ++ evSs removed ++ pre ++ snd (pass s retained F k cn n_new) in
-  (forall p, rdy s = Some p -> memz (fst p) l' = false) ->
-  ready_ok s X = true /\ order_ok l' X = true /\ tf_ok k X = true /\
-  (cn = false -> connecting_before_ready X false = None).
+Lemma shutdown_remaining_alive s sc : Alive s -> In sc (subs s) -> Alive (fst (shutdown_remaining s sc)).
 Proof.
-  cbv zeta. intros HR.
-  set (retained := filter (fun p => memz (fst p) l') (subs s)).
-  set (removed := filter (fun p => negb (memz (fst p) l')) (subs s ++ rdy_list s)).
-  set (F := filter (fun a => negb (has_addr a retained)) l').
-  pose proof (pass_facts s retained F k cn n_new) as PF. cbv zeta in PF.
-  set (success := (0 <=? k) && (k <? Z.of_nat (length F))) in *.
-  set (A := if success then take (S (Z.to_nat k)) F else F) in *.
-  set (created := number (nsc s) A) in *.
-  set (e := snd (pass s retained F k cn n_new)) in *.
-  destruct PF as [P1 [P2 [P3 [P4 [P5 [P6 P7]]]]]].
-  destruct (ext_S removed) as [S1 [S2 [S3 [S4 S5]]]].
-  set (pre := if cn then [evU CONNECTING (-1)] else []).
-  assert (PR : n_addrs pre = [] /\ n_scs pre = [] /\ c_scs pre = [] /\ s_scs pre = [] /\
-               u_events pre = if cn then [(CONNECTING, -1)] else []) by (unfold pre; destruct cn; repeat split; reflexivity).
-  destruct PR as [R1 [R2 [R3 [R4 R5]]]].
-  assert (XN : n_addrs ([[12; 0]] ++ evSs removed ++ pre ++ e) = A)
-    by (rewrite !n_addrs_app, S1, R1, P1; reflexivity).
-  assert (XS : n_scs ([[12; 0]] ++ evSs removed ++ pre ++ e) = map snd created)
-    by (rewrite !n_scs_app, S2, R2, P2; reflexivity).
-  assert (XC : c_scs ([[12; 0]] ++ evSs removed ++ pre ++ e) = map snd created)
-    by (rewrite !c_scs_app, S3, R3, P3; reflexivity).
-  assert (XSS : s_scs ([[12; 0]] ++ evSs removed ++ pre ++ e) = map snd removed ++ s_scs e)
-    by (rewrite !s_scs_app, S5, R4; reflexivity).
-  assert (XU : u_events ([[12; 0]] ++ evSs removed ++ pre ++ e) =
-               (if cn then [(CONNECTING, -1)] else []) ++ u_events e)
-    by (rewrite !u_events_app, S4, R5; reflexivity).
-  assert (LA : length created = length A) by apply number_len.
-  split; [|split; [|split]].
-  - (* clause 1 *)
-    unfold ready_ok. rewrite XU, XS, XSS. apply forallb_forall. intros u Hu.
-    destruct (fst u =? READY) eqn:EU; [|reflexivity]. cbn [negb orb].
-    apply Z.eqb_eq in EU.
-    assert (Hsucc : success = true).
-    { destruct success eqn:Hs; [reflexivity|]. exfalso.
-      apply in_app_or in Hu. destruct Hu as [Hu|Hu].
-      - destruct cn; [destruct Hu as [<-|[]]; discriminate|destruct Hu].
-      - destruct created as [|c0 cr] eqn:EC.
-        + rewrite (P4 eq_refl) in Hu. destruct Hu as [<-|[]]. discriminate.
-        + destruct (P5 ltac:(discriminate) eq_refl) as [_ UE]. rewrite UE in Hu.
-          destruct Hu as [<-|[]]. discriminate. }
-    destruct (P6 Hsucc) as [win [EW [SE UE]]].
-    assert (snd u = snd win).
-    { apply in_app_or in Hu. destruct Hu as [Hu|Hu].
-      - destruct cn; [destruct Hu as [<-|[]]; discriminate|destruct Hu].
-      - rewrite UE in Hu. destruct Hu as [<-|[]]. reflexivity. }
-    rewrite EW, map_app, rev_app_distr. cbn [map rev app]. rewrite H, Z.eqb_refl. cbn [andb].
-    rewrite SE. apply forallb_forall. intros sc Hsc. apply memz_In.
-    apply in_app_or in Hsc. destruct Hsc as [Hsc|Hsc].
-    + apply in_or_app. right. rewrite map_app. apply in_or_app. right. apply in_rev. exact Hsc.
-    + assert (G : forall p, In p (subs s ++ rdy_list s) ->
-                  In (snd p) (map snd removed ++ map snd (retained ++ removelast created))).
-      { intros p Hp. destruct (memz (fst p) l') eqn:M.
-        - apply in_or_app. right. rewrite map_app. apply in_or_app. left. apply in_map.
-          apply filter_In. split; [|exact M]. apply in_app_or in Hp. destruct Hp as [Hp|Hp]; [exact Hp|].
-          unfold rdy_list in Hp. destruct (rdy s) as [q|] eqn:EQ; [|destruct Hp]. destruct Hp as [<-|[]].
-          rewrite (HR q eq_refl) in M. discriminate.
-        - apply in_or_app. left. apply in_map. apply filter_In. split; [exact Hp|]. rewrite M. reflexivity. }
-      apply in_app_or in Hsc. destruct Hsc as [Hsc|Hsc].
-      * apply in_map_iff in Hsc. destruct Hsc as [p [<- Hp]]. apply G. apply in_or_app. left. exact Hp.
-      * unfold rdy_list in G. destruct (rdy s) as [q|]; [|destruct Hsc]. destruct Hsc as [<-|[]].
-        apply G. apply in_or_app. right. left. reflexivity.
-  - (* clause 2 *)
-    unfold order_ok. rewrite XN, XC, XS, word_eqb_refl, andb_true_r.
-    unfold A. destruct success; [apply sublist_take_filter|apply sublist_filter].
-  - (* clause 3 *)
-    unfold tf_ok. rewrite XS, XU, map_length, LA.
-    destruct success eqn:Hs.
-    + apply orb_true_iff. left. unfold A. unfold success in Hs. apply andb_true_iff in Hs.
-      destruct Hs as [H0 H1]. rewrite H0. cbn [andb]. apply Z.ltb_lt. apply Z.leb_le in H0. apply Z.ltb_lt in H1.
-      assert (length (take (S (Z.to_nat k)) F) = S (Z.to_nat k)).
-      { assert (G : forall n (l : list Z), (n <= length l)%nat -> length (take n l) = n).
-        { induction n as [|n IH]; intros [|x r] Hl; cbn in *; try lia. f_equal. apply IH. lia. }
-        apply G. lia. }
-      rewrite H. lia.
-    + apply orb_true_iff. right. destruct created as [|c0 cr] eqn:EC.
-      * rewrite (P4 eq_refl). destruct cn; reflexivity.
-      * destruct (P5 ltac:(discriminate) eq_refl) as [_ UE]. rewrite UE.
-        rewrite !rev_app_distr. destruct cn; reflexivity.
-  - (* clause 4 *)
-    intros Hcn. subst cn. unfold pre. cbn [app].
-    change (connecting_before_ready ([12; 0] :: evSs removed ++ e) false)
-      with (connecting_before_ready (evSs removed ++ e) false).
-    rewrite cbr_S, P7. reflexivity.
+  intros A Hin. unfold shutdown_remaining.
+  pose proof (Alive_shutdown (cancel_timer s) (filter (fun x => negb (Nat.eqb x sc)) (subs (cancel_timer s))) [sc]
+                (Alive_same _ _ (sa_timer s false) A)) as X.
+  destruct (shutdown_all (cancel_timer s) _) as [s2 e]. cbn [fst] in *. apply X.
+  - intros x Hx. destruct (Nat.eqb_spec x sc) as [->|Hne]; [right; left; reflexivity|left].
+    apply filter_In. split; [exact Hx|]. apply negb_true_iff, Nat.eqb_neq. exact Hne.
+  - intros x [<-|[]]. split; [exact Hin|]. intros F. apply filter_In in F. destruct F as [_ F].
+    rewrite Nat.eqb_refl in F. discriminate.
 Qed.
 
-(* ---------- invariant between rounds ---------- *)
-
-Definition Inv (s : st) : Prop :=
-  (forall p, rdy s = Some p -> bstate s = READY /\ 0 < naddrs s) /\
-  (rdy s = None -> bstate s = CONNECTING \/ bstate s = TF).
-
-Lemma Inv_init : Inv init.
-Proof. split; [intros p H; discriminate|]. intros _. left. reflexivity. Qed.
-
-Lemma preprocess_nonempty a l : 0 < Z.of_nat (length (preprocess (a :: l))).
+Lemma is_active_in s sc : is_active s sc = true -> In sc (subs s).
 Proof.
-  assert (In a (preprocess (a :: l))) by (apply preprocess_In; left; reflexivity).
-  destruct (preprocess (a :: l)); [destruct H|]. cbn [length]. lia.
+  unfold is_active, lookup. destruct (find _ (subs s)) as [sc'|] eqn:F; [|discriminate].
+  intros E. apply Nat.eqb_eq in E. subst sc'. apply find_some in F. exact (proj1 F).
 Qed.
 
-Lemma pass_state s retained F k cn n_new : 0 < n_new ->
-  Inv (fst (pass s retained F k cn n_new)).
+Lemma resolver_update_alive s l0 : Alive s -> Alive (fst (resolver_update s l0)).
 Proof.
-  intros Hn. unfold pass. destruct (number (nsc s) _) as [|first rest].
-  - split; [intros p H; discriminate|]. intros _. right. reflexivity.
-  - destruct ((0 <=? k) && (k <? Z.of_nat (length F))); cbn [fst].
-    + split; [|intros H; discriminate]. intros p H. split; [reflexivity|exact Hn].
-    + split; [intros p H; discriminate|]. intros _. right. reflexivity.
-Qed.
-
-Definition ok5 (c : Z * Z * bool) : bool := snd c.
-
-Lemma round_ok s k l0 i : Inv s ->
-  Inv (fst (round s k l0)) /\ forallb ok5 (round_clauses s k l0 (snd (round s k l0)) i) = true.
-Proof.
-  intros [I1 I2]. unfold round, round_clauses.
-  destruct (filter valid_addr l0) as [|a l1] eqn:EL.
-  - split; [split; [intros p H; discriminate|intros _; right; reflexivity]|].
-    cbn [snd negb orb forallb ok5 fst].
-    change (map (fun p : Z * Z => evS (snd p)) (subs s ++ match rdy s with Some p => [p] | None => [] end))
-      with (evSs (subs s ++ rdy_list s)).
-    destruct (ext_S (subs s ++ rdy_list s)) as [S1 [S2 [S3 [S4 S5]]]].
-    assert (C1 : ready_ok s ([[12; 1]] ++ evSs (subs s ++ rdy_list s) ++ [evU TF (-1)]) = true).
-    { unfold ready_ok. rewrite !u_events_app, S4. reflexivity. }
-    assert (C2 : order_ok (preprocess []) ([[12; 1]] ++ evSs (subs s ++ rdy_list s) ++ [evU TF (-1)]) = true).
-    { unfold order_ok. rewrite !n_addrs_app, !c_scs_app, !n_scs_app, S1, S2, S3. reflexivity. }
-    assert (C4 : connecting_before_ready ([[12; 1]] ++ evSs (subs s ++ rdy_list s) ++ [evU TF (-1)]) false = None).
-    { cbn [app].
-      change (connecting_before_ready ([12; 1] :: evSs (subs s ++ rdy_list s) ++ [evU TF (-1)]) false)
-        with (connecting_before_ready (evSs (subs s ++ rdy_list s) ++ [evU TF (-1)]) false).
-      rewrite cbr_S. reflexivity. }
-    rewrite C1, C2, C4. rewrite !orb_true_r. reflexivity.
+  intros A. unfold resolver_update.
+  pose proof (Alive_same _ _ (sa_timer s false) A) as A0. fold (cancel_timer s) in A0.
+  destruct (filter valid_addr l0) as [|a l1].
+  - pose proof (Alive_shutdown (cancel_timer s) (subs (cancel_timer s)) [] A0) as X.
+    destruct (shutdown_all (cancel_timer s) (subs (cancel_timer s))) as [s1 e1]. cbn [fst] in X.
+    assert (A2 : Alive (set_sticky (set_list (set_subs s1 []) [] 0) false)).
+    { eapply Alive_same; [apply sa_sticky|]. eapply Alive_same; [apply sa_list|]. apply X.
+      - intros sc H. left. exact H.
+      - intros sc []. }
+    pose proof (Alive_same _ _ (sa_resolver_error _) A2) as A3.
+    destruct (resolver_error _) as [s3 e3]. exact A3.
   - set (l' := preprocess (a :: l1)).
-    destruct (match rdy s with Some p => memz (fst p) l' | None => false end) eqn:KR.
-    + split.
-      * split.
-        -- intros p H. cbn in H. destruct (I1 p H) as [B _]. split; [exact B|]. apply preprocess_nonempty.
-        -- exact I2.
-      * cbn [snd negb andb orb forallb ok5 fst].
-        replace (ready_ok s [[12; 0]]) with true by reflexivity.
-        assert (order_ok l' [[12; 0]] = true) as -> by (clearbody l'; destruct l'; reflexivity).
-        replace (connecting_before_ready [[12; 0]] false) with (@None bool) by reflexivity.
-        rewrite !orb_true_r. reflexivity.
-    + assert (HR : forall p, rdy s = Some p -> memz (fst p) l' = false).
-      { intros p H. rewrite H in KR. exact KR. }
-      assert (ST : sticky s = true -> rdy s = None /\ (bstate s =? CONNECTING) = false /\ (naddrs s =? 0) = false /\ (bstate s =? TF) = true).
-      { unfold sticky. intros H. apply andb_true_iff in H. destruct H as [H1 H2].
-        apply Z.eqb_eq in H1. apply Z.ltb_lt in H2. repeat split.
-        - destruct (rdy s) as [p|] eqn:E; [|reflexivity]. destruct (I1 p eq_refl) as [B _]. rewrite B in H1. discriminate.
-        - rewrite H1. reflexivity.
-        - apply Z.eqb_neq. lia.
-        - rewrite H1. reflexivity. }
-      change (subs s ++ match rdy s with Some p => [p] | None => [] end) with (subs s ++ rdy_list s).
-      cbn [negb andb orb].
-      destruct ((match rdy s with Some _ => true | None => false end) || (bstate s =? CONNECTING) || (naddrs s =? 0)) eqn:FC.
-      * pose proof (pass_chunk_ok s l' k true (Z.of_nat (length l')) HR) as [C1 [C2 [C3 _]]].
-        pose proof (pass_state s (filter (fun p => memz (fst p) l') (subs s))
-                      (filter (fun a0 => negb (has_addr a0 (filter (fun p => memz (fst p) l') (subs s)))) l')
-                      k true (Z.of_nat (length l')) (preprocess_nonempty a l1)) as IS.
-        destruct (pass s _ _ k true _) as [s1 e]. cbn [fst snd] in *. split; [exact IS|].
-        cbn [forallb ok5 fst snd].
-        change (map (fun p : Z * Z => evS (snd p)) ?x) with (evSs x).
-        rewrite <- !app_assoc. cbn [app] in *.
-        match goal with |- context [ready_ok s ?x] => replace (ready_ok s x) with true by (symmetry; exact C1) end.
-        match goal with |- context [order_ok l' ?x] => replace (order_ok l' x) with true by (symmetry; exact C2) end.
-        match goal with |- context [tf_ok k ?x] => replace (tf_ok k x) with true by (symmetry; exact C3) end.
-        destruct (sticky s) eqn:SS; [|cbn; reflexivity].
-        destruct (ST eq_refl) as [E1 [E2 [E3 _]]]. rewrite E1, E2, E3 in FC. discriminate.
-      * destruct (bstate s =? TF) eqn:BT.
-        -- pose proof (pass_chunk_ok s l' k false (Z.of_nat (length l')) HR) as [C1 [C2 [C3 C4]]].
-           pose proof (pass_state s (filter (fun p => memz (fst p) l') (subs s))
-                      (filter (fun a0 => negb (has_addr a0 (filter (fun p => memz (fst p) l') (subs s)))) l')
-                      k false (Z.of_nat (length l')) (preprocess_nonempty a l1)) as IS.
-           destruct (pass s _ _ k false _) as [s1 e]. cbn [fst snd] in *. split; [exact IS|].
-           cbn [forallb ok5 fst snd].
-           change (map (fun p : Z * Z => evS (snd p)) ?x) with (evSs x).
-           cbn [app] in *.
-           match goal with |- context [ready_ok s ?x] => replace (ready_ok s x) with true by (symmetry; exact C1) end.
-           match goal with |- context [order_ok l' ?x] => replace (order_ok l' x) with true by (symmetry; exact C2) end.
-           match goal with |- context [tf_ok k ?x] => replace (tf_ok k x) with true by (symmetry; exact C3) end.
-           match goal with |- context [connecting_before_ready ?x false] =>
-             replace (connecting_before_ready x false) with (@None bool) by (symmetry; exact (C4 eq_refl)) end.
-           destruct (sticky s); reflexivity.
-        -- exfalso. destruct (rdy s) as [p|] eqn:ER; [discriminate|].
-           destruct (I2 eq_refl) as [B|B]; rewrite B in *; discriminate.
+    set (s1 := set_list (cancel_timer s) l' 0).
+    assert (A1 : Alive s1) by (exact (Alive_same _ _ (sa_list _ _ _) A0)).
+    destruct (match lookup (cancel_timer s) (cur_addr (cancel_timer s)) with
+              | Some sc => d_raw (sds (cancel_timer s) sc) =? READY | None => false end) eqn:PR.
+    + pose proof (Alive_same _ _ (sa_seek s1 (cur_addr (cancel_timer s))) A1) as AK.
+      destruct (al_seek s1 (cur_addr (cancel_timer s))) as [s1k kept]. cbn [fst] in AK.
+      destruct kept; [exact AK|].
+      pose proof (Alive_shutdown s1 (filter (fun sc => negb (memz (d_addr (sds s1 sc)) l')) (subs s1))
+                    (filter (fun sc => memz (d_addr (sds s1 sc)) l') (subs s1)) A1) as X.
+      destruct (shutdown_all s1 _) as [s2 e2]. cbn [fst] in X.
+      assert (A3 : Alive (set_subs s2 (filter (fun sc => memz (d_addr (sds s1 sc)) l') (subs s1)))).
+      { apply X.
+        - intros sc H. destruct (memz (d_addr (sds s1 sc)) l') eqn:M; [right|left]; apply filter_In; split; try assumption.
+          rewrite M. reflexivity.
+        - intros sc H. apply filter_In in H. destruct H as [H M]. split; [exact H|]. intros F. apply filter_In in F.
+          destruct F as [_ F]. rewrite M in F. discriminate. }
+      cbn [orb]. pose proof (Alive_same _ _ (sa_force _ CONNECTING (-1)) A3) as A4.
+      destruct (force_state _ CONNECTING (-1)) as [s4 e4]. cbn [fst] in A4.
+      pose proof (start_alive s4 A4) as A5. destruct (start_first_pass s4) as [s5 e5]. exact A5.
+    + pose proof (Alive_shutdown s1 (filter (fun sc => negb (memz (d_addr (sds s1 sc)) l')) (subs s1))
+                    (filter (fun sc => memz (d_addr (sds s1 sc)) l') (subs s1)) A1) as X.
+      destruct (shutdown_all s1 _) as [s2 e2]. cbn [fst] in X.
+      assert (A3 : Alive (set_subs s2 (filter (fun sc => memz (d_addr (sds s1 sc)) l') (subs s1)))).
+      { apply X.
+        - intros sc H. destruct (memz (d_addr (sds s1 sc)) l') eqn:M; [right|left]; apply filter_In; split; try assumption.
+          rewrite M. reflexivity.
+        - intros sc H. apply filter_In in H. destruct H as [H M]. split; [exact H|]. intros F. apply filter_In in F.
+          destruct F as [_ F]. rewrite M in F. discriminate. }
+      cbn [orb].
+      destruct ((bstate _ =? CONNECTING) || _).
+      * pose proof (Alive_same _ _ (sa_force _ CONNECTING (-1)) A3) as A4.
+        destruct (force_state _ CONNECTING (-1)) as [s4 e4]. cbn [fst] in A4.
+        pose proof (start_alive s4 A4) as A5. destruct (start_first_pass s4) as [s5 e5]. exact A5.
+      * destruct (bstate _ =? TF); [|exact A3].
+        pose proof (start_alive _ A3) as A5. destruct (start_first_pass _) as [s5 e5]. exact A5.
 Qed.
 
-Lemma resolver_error_ok s op i : Inv s -> (forall k l, op <> 1 :: k :: l) ->
-  Inv (fst (resolver_error s)) /\ forallb ok5 (clause_op s op (snd (resolver_error s)) i) = true.
+Lemma sc_state_alive s sc v : Alive s -> Alive (fst (sc_state s sc v)).
 Proof.
-  intros [I1 I2] Hop. unfold resolver_error.
-  assert (CO : forall ch, clause_op s op ch i =
-            [ (1, i, ready_ok s ch); (2, i, order_ok [] ch);
-              (4, i, negb (sticky s) || match connecting_before_ready ch false with Some _ => false | None => true end) ]).
-  { intros ch. unfold clause_op. destruct op as [|z [|k l]]; try reflexivity;
-      try (destruct z as [|q|q]; try reflexivity; destruct q; reflexivity).
-    destruct (Z.eq_dec z 1) as [->|Nz]; [exfalso; exact (Hop k l eq_refl)|].
-    destruct z as [|q|q]; try reflexivity. destruct q; try reflexivity. congruence. }
-  rewrite CO.
-  destruct (negb (bstate s =? TF) && (0 <? naddrs s)) eqn:E; cbn [fst snd].
-  - split; [split; assumption|]. cbn. rewrite !orb_true_r. reflexivity.
-  - split.
-    + split; cbn.
-      * intros p H. destruct (I1 p H) as [B N]. rewrite B in E. apply Z.ltb_lt in N. rewrite N in E. discriminate.
-      * intros _. right. reflexivity.
-    + cbn. rewrite !orb_true_r. reflexivity.
+  intros A. unfold sc_state.
+  set (s1 := upd_sd s sc (d_set_raw v)).
+  assert (A1 : Alive s1) by (exact (Alive_same _ _ (sa_upd s sc (d_set_raw v) (fun d => eq_refl)) A)).
+  destruct (is_active s1 sc) eqn:ACT; cbn [negb]; [|exact A1].
+  destruct (v =? SHUTDOWN); [exact (Alive_same _ _ (sa_upd s1 sc (d_set_eff SHUTDOWN) (fun d => eq_refl)) A1)|].
+  set (s2 := if v =? TF then upd_sd s1 sc (d_set_failed true) else s1).
+  assert (S2 : same_alive s1 s2) by (unfold s2; destruct (v =? TF); [apply sa_upd; reflexivity|apply same_alive_refl]).
+  assert (A2 : Alive s2) by exact (Alive_same _ _ S2 A1).
+  assert (IN : In sc (subs s2)) by (destruct S2 as [E _]; rewrite E; apply is_active_in; exact ACT).
+  destruct (v =? READY).
+  { pose proof (shutdown_remaining_alive s2 sc A2 IN) as A3.
+    destruct (shutdown_remaining s2 sc) as [s3 e3]. cbn [fst] in A3.
+    pose proof (Alive_same _ _ (sa_seek s3 (d_addr (sds s3 sc))) A3) as A4.
+    destruct (al_seek s3 (d_addr (sds s3 sc))) as [s4 found]. cbn [fst] in A4.
+    destruct found; cbn [negb]; [|exact A4].
+    pose proof (Alive_same _ _ (sa_upd s4 sc (d_set_eff READY) (fun d => eq_refl)) A4) as A5.
+    pose proof (Alive_same _ _ (sa_update _ READY (zn sc)) A5) as A6.
+    destruct (update_state _ READY (zn sc)). exact A6. }
+  destruct ((d_raw (sds s sc) =? READY) || (d_raw (sds s sc) =? CONNECTING) && (v =? IDLE)).
+  { pose proof (shutdown_remaining_alive s2 sc A2 IN) as A3.
+    destruct (shutdown_remaining s2 sc) as [s3 e3]. cbn [fst] in A3.
+    assert (A4 : Alive (set_list (upd_sd s3 sc (d_set_eff v)) (addrs s3) 0)).
+    { eapply Alive_same; [apply sa_list|]. eapply Alive_same; [apply sa_upd; reflexivity|exact A3]. }
+    pose proof (Alive_same _ _ (sa_update _ IDLE (-1)) A4) as A5.
+    destruct (update_state _ IDLE (-1)). exact A5. }
+  destruct (firstPass s2).
+  { destruct (v =? CONNECTING).
+    - destruct (negb (d_eff (sds s2 sc) =? TF)); [|exact A2].
+      pose proof (Alive_same _ _ (sa_upd s2 sc (d_set_eff CONNECTING) (fun d => eq_refl)) A2) as A3.
+      destruct (negb (bstate _ =? TF)); [|exact A3].
+      exact (Alive_same _ _ (sa_update _ CONNECTING (-1)) A3).
+    - destruct (v =? TF); [|exact A2].
+      pose proof (Alive_same _ _ (sa_upd s2 sc (d_set_eff TF) (fun d => eq_refl)) A2) as A3.
+      destruct (cur_addr _ =? _).
+      + assert (A4 : Alive (fst (al_increment (cancel_timer (upd_sd s2 sc (d_set_eff TF)))))).
+        { eapply Alive_same; [apply sa_incr|]. eapply Alive_same; [apply sa_timer|exact A3]. }
+        destruct (al_increment _) as [s5 more]. cbn [fst] in A4.
+        destruct more; [apply request_alive; exact A4|exact (Alive_same _ _ (sa_efp s5) A4)].
+      + exact (Alive_same _ _ (sa_efp _) A3). }
+  destruct (v =? TF).
+  { set (s3 := set_pass s2 _ _). assert (A3 : Alive s3) by exact (Alive_same _ _ (sa_pass _ _ _) A2).
+    destruct (_ =? 0); [exact (Alive_same _ _ (sa_update _ TF (-1)) A3)|exact A3]. }
+  destruct (v =? IDLE); exact A2.
 Qed.
 
-Definition chunk (s : st) (op : word) : list word :=
-  match op with
-  | 1 :: k :: l => snd (round s k l)
-  | 4 :: _ => snd (resolver_error s)
-  | _ => []
-  end.
-
-Lemma step_eq s op : step s op =
-  (match op with 1 :: k :: l => fst (round s k l) | 4 :: _ => fst (resolver_error s) | _ => s end,
-   chunk s op ++ [[0]]).
+Lemma timer_fire_alive s : Alive s -> Alive (fst (timer_fire s)).
 Proof.
-  unfold step, chunk. destruct op as [|z r]; [reflexivity|].
-  destruct (Z.eq_dec z 1) as [->|N1].
-  { destruct r as [|k l]; [reflexivity|]. destruct (round s k l); reflexivity. }
-  destruct (Z.eq_dec z 4) as [->|N4].
-  { destruct (resolver_error s); reflexivity. }
+  intros A. unfold timer_fire. destruct (timer s); [|exact A].
+  assert (A2 : Alive (fst (al_increment (set_timer s false)))).
+  { eapply Alive_same; [apply sa_incr|]. eapply Alive_same; [apply sa_timer|exact A]. }
+  destruct (al_increment _) as [s2 more]. cbn [fst] in A2. destruct more; [apply request_alive; exact A2|exact A2].
+Qed.
+
+Lemma exit_idle_alive s : Alive s -> Alive (fst (exit_idle s)).
+Proof.
+  intros A. unfold exit_idle. destruct (bstate s =? IDLE); [|exact A].
+  pose proof (Alive_same _ _ (sa_update s CONNECTING (-1)) A) as A1.
+  destruct (update_state s CONNECTING (-1)) as [s1 e1]. cbn [fst] in A1.
+  pose proof (start_alive s1 A1) as A2. destruct (start_first_pass s1). exact A2.
+Qed.
+
+Lemma step_main_alive s op : Alive s -> Alive (fst (step_main s op)).
+Proof.
+  intros A. unfold step_main.
+  destruct op as [|z r]; [exact A|].
+  destruct z as [|q|q]; try exact A.
+  do 3 (try destruct q as [q|q|]); try exact A.
+  all: first [ apply exit_idle_alive; exact A | apply timer_fire_alive; exact A
+             | exact (Alive_same _ _ (sa_resolver_error s) A) | apply resolver_update_alive; exact A
+             | destruct r as [|z [|v [|x r]]]; try exact A;
+               destruct (sc_of s z); [|exact A]; destruct (_ && _); [apply sc_state_alive; exact A|exact A] ].
+Qed.
+
+(* ---------- clause 1: READY soundness ---------- *)
+
+Definition nr (e : list word) : Prop := forallb (fun u : Z * Z => negb (fst u =? READY)) (u_events e) = true.
+
+Lemma nr_app a b : nr a -> nr b -> nr (a ++ b).
+Proof. unfold nr. intros A B. rewrite u_events_app, forallb_app, A, B. reflexivity. Qed.
+Lemma nr_tf e : tf_only e -> nr e.
+Proof.
+  unfold nr, tf_only. intros H. rewrite forallb_forall in *. intros u Hu. specialize (H u Hu).
+  apply Z.eqb_eq in H. rewrite H. reflexivity.
+Qed.
+Lemma nr_S l : nr (map evS l). Proof. apply nr_tf, tf_only_S. Qed.
+Lemma update_state_nr s v pk : v <> READY -> nr (snd (update_state s v pk)).
+Proof.
+  intros H. unfold update_state, force_state. destruct (_ && _); [reflexivity|].
+  unfold nr. cbn. destruct (Z.eqb_spec v READY); [contradiction|reflexivity].
+Qed.
+Lemma nr_ready_ok s op e : nr e -> ready_ok s op e = true.
+Proof.
+  unfold nr, ready_ok. rewrite !forallb_forall. intros H u Hu. rewrite (H u Hu). reflexivity.
+Qed.
+
+Lemma resolver_update_nr s l0 : nr (snd (resolver_update s l0)).
+Proof.
+  unfold resolver_update. destruct (filter valid_addr l0) as [|a l1].
+  - destruct (shutdown_all (cancel_timer s) (subs (cancel_timer s))) as [s1 e1] eqn:E1.
+    assert (e1 = map evS (subs (cancel_timer s))) by (unfold shutdown_all in E1; inversion E1; reflexivity). subst e1.
+    pose proof (resolver_error_tf (set_sticky (set_list (set_subs s1 []) [] 0) false)) as T.
+    destruct (resolver_error _) as [s3 e3]. cbn [snd] in *.
+    apply nr_app; [apply nr_S|]. apply nr_app; [apply nr_tf; exact T|reflexivity].
+  - set (l' := preprocess (a :: l1)). set (s1 := set_list (cancel_timer s) l' 0).
+    assert (G : forall (pr : bool) sk (kept : bool), nr (snd (
+       if kept then (sk, [[12; 0]])
+       else let '(s2, e2) := shutdown_all s1 (filter (fun sc => negb (memz (d_addr (sds s1 sc)) l')) (subs s1)) in
+            let s3 := set_subs s2 (filter (fun sc => memz (d_addr (sds s1 sc)) l') (subs s1)) in
+            if pr || (bstate s3 =? CONNECTING) || (length (addrs (cancel_timer s)) =? 0)%nat
+            then let '(s4, e4) := force_state s3 CONNECTING (-1) in
+                 let '(s5, e5) := start_first_pass s4 in (s5, e2 ++ e4 ++ e5 ++ [[12; 0]])
+            else if bstate s3 =? TF then let '(s5, e5) := start_first_pass s3 in (s5, e2 ++ e5 ++ [[12; 0]])
+                 else (s3, e2 ++ [[12; 0]])))).
+    { intros pr sk kept. destruct kept; [reflexivity|].
+      destruct (shutdown_all s1 _) as [s2 e2] eqn:E2.
+      assert (N2 : nr e2) by (unfold shutdown_all in E2; inversion E2; apply nr_S).
+      cbv beta iota zeta.
+      match goal with |- context [if ?c then _ else _] => destruct c end.
+      - destruct (force_state _ CONNECTING (-1)) as [s4 e4] eqn:E4.
+        assert (N4 : nr e4) by (unfold force_state in E4; inversion E4; reflexivity).
+        pose proof (start_tf s4) as T. destruct (start_first_pass s4) as [s5 e5]. cbn [snd] in *.
+        apply nr_app; [exact N2|]. apply nr_app; [exact N4|]. apply nr_app; [apply nr_tf; exact T|reflexivity].
+      - destruct (bstate _ =? TF).
+        + pose proof (start_tf (set_subs s2 (filter (fun sc => memz (d_addr (sds s1 sc)) l') (subs s1)))) as T.
+          destruct (start_first_pass _) as [s5 e5]. cbn [snd] in *.
+          apply nr_app; [exact N2|]. apply nr_app; [apply nr_tf; exact T|reflexivity].
+        + cbn [snd]. apply nr_app; [exact N2|reflexivity]. }
+    destruct (match lookup (cancel_timer s) (cur_addr (cancel_timer s)) with
+              | Some sc => d_raw (sds (cancel_timer s) sc) =? READY | None => false end).
+    + destruct (al_seek s1 (cur_addr (cancel_timer s))) as [sk kept]. apply (G true sk kept).
+    + apply (G false s1 false).
+Qed.
+
+Lemma sc_of_zn s sc : (sc < nsc s)%nat -> sc_of s (zn sc) = Some sc.
+Proof.
+  intros H. unfold sc_of, zn. replace ((0 <=? Z.of_nat sc) && (Z.of_nat sc <? Z.of_nat (nsc s))) with true.
+  - rewrite Nat2Z.id. reflexivity.
+  - symmetry. apply andb_true_iff. split; [apply Z.leb_le|apply Z.ltb_lt]; lia.
+Qed.
+
+Lemma sc_state_ready_ok s sc v : Alive s -> (sc < nsc s)%nat ->
+  ready_ok s [2; zn sc; v] (snd (sc_state s sc v)) = true.
+Proof.
+  intros A Hlt. unfold sc_state.
+  set (s1 := upd_sd s sc (d_set_raw v)).
+  assert (S1 : same_alive s s1) by (apply sa_upd; reflexivity).
+  destruct (is_active s1 sc) eqn:ACT; cbn [negb]; [|reflexivity].
+  destruct (v =? SHUTDOWN); [reflexivity|].
+  set (s2 := if v =? TF then upd_sd s1 sc (d_set_failed true) else s1).
+  assert (S2 : same_alive s1 s2) by (unfold s2; destruct (v =? TF); [apply sa_upd; reflexivity|apply same_alive_refl]).
+  pose proof (same_alive_trans _ _ _ S1 S2) as S02.
+  assert (IN : In sc (subs s2)) by (destruct S2 as [E _]; rewrite E; apply is_active_in; exact ACT).
+  destruct (v =? READY) eqn:EV.
+  { apply Z.eqb_eq in EV. subst v.
+    unfold shutdown_remaining. cbn [shutdown_all].
+    set (others := filter (fun x => negb (Nat.eqb x sc)) (subs (cancel_timer s2))).
+    match goal with |- context [al_seek ?a ?b] => destruct (al_seek a b) as [s4 found] end.
+    destruct found; cbn [negb]; [|apply nr_ready_ok, nr_S].
+    match goal with |- context [update_state ?a READY ?b] => destruct (update_state a READY b) as [s5 e5] eqn:E5 end.
+    cbn [snd].
+    assert (E5' : e5 = [] \/ e5 = [evU READY (zn sc)]).
+    { unfold update_state, force_state in E5. destruct (_ && _); inversion E5; auto. }
+    destruct E5' as [->| ->]; [rewrite app_nil_r; apply nr_ready_ok, nr_S|].
+    unfold ready_ok. rewrite u_events_app. destruct (ext_S others) as [U [N SS]]. rewrite U. cbn [app u_events flat_map evU forallb].
+    rewrite andb_true_r. replace (READY =? READY) with true by reflexivity. cbn [negb orb andb].
+    rewrite Z.eqb_refl, (sc_of_zn s sc Hlt). cbn [andb].
+    destruct A as [A1 A2]. destruct S02 as [ES [EN EF]].
+    assert (INs : In sc (subs s)) by (rewrite <- ES; exact IN).
+    destruct (A1 sc INs) as [_ NS]. unfold shutf in NS. rewrite NS. cbn [negb andb].
+    rewrite n_scs_app, N. cbn [app n_scs flat_map evU]. rewrite andb_true_r.
+    cbn [orb snd]. rewrite Z.eqb_refl. cbn [andb].
+    apply forallb_forall. intros x Hx. apply in_seq in Hx.
+    destruct (Nat.eqb_spec x sc) as [->|Hne]; [reflexivity|]. cbn [orb].
+    destruct (in_dec Nat.eq_dec x (subs s)) as [Hi|Hn].
+    - apply orb_true_iff. right. apply memz_In. rewrite s_scs_app, SS. apply in_or_app. left.
+      apply in_map. unfold others. apply filter_In. split; [change (subs (cancel_timer s2)) with (subs s2); rewrite ES; exact Hi|].
+      apply negb_true_iff, Nat.eqb_neq. exact Hne.
+    - assert (shutf s x = true) by (apply A2; [lia|exact Hn]). unfold shutf in H. rewrite H. reflexivity. }
+  apply nr_ready_ok.
+  destruct ((d_raw (sds s sc) =? READY) || (d_raw (sds s sc) =? CONNECTING) && (v =? IDLE)).
+  { unfold shutdown_remaining. cbn [shutdown_all].
+    match goal with |- context [update_state ?a IDLE ?b] => pose proof (update_state_nr a IDLE b ltac:(discriminate)) as X; destruct (update_state a IDLE b) end.
+    cbn [snd] in *. apply nr_app; [apply nr_S|exact X]. }
+  destruct (firstPass s2).
+  { destruct (v =? CONNECTING).
+    - destruct (negb (d_eff (sds s2 sc) =? TF)); [|reflexivity].
+      destruct (negb (bstate _ =? TF)); [|reflexivity]. apply update_state_nr. discriminate.
+    - destruct (v =? TF); [|reflexivity].
+      destruct (cur_addr _ =? _).
+      + destruct (al_increment _) as [s5 more]. destruct more; apply nr_tf; [apply request_tf|apply end_first_pass_tf].
+      + apply nr_tf, end_first_pass_tf. }
+  destruct (v =? TF).
+  { destruct (_ =? 0); [apply nr_tf, update_state_tf|reflexivity]. }
+  destruct (v =? IDLE); reflexivity.
+Qed.
+
+Lemma sc_of_spec s z sc : sc_of s z = Some sc -> (sc < nsc s)%nat /\ z = zn sc.
+Proof.
+  unfold sc_of, zn. destruct ((0 <=? z) && (z <? Z.of_nat (nsc s))) eqn:E; [|discriminate].
+  intros [= <-]. apply andb_true_iff in E. destruct E as [A B]. apply Z.leb_le in A. apply Z.ltb_lt in B. lia.
+Qed.
+
+Lemma exit_idle_nr s : nr (snd (exit_idle s)).
+Proof.
+  unfold exit_idle. destruct (bstate s =? IDLE); [|reflexivity].
+  pose proof (update_state_nr s CONNECTING (-1) ltac:(discriminate)) as X.
+  destruct (update_state s CONNECTING (-1)) as [s1 e1]. pose proof (start_tf s1) as T.
+  destruct (start_first_pass s1). cbn [snd] in *. apply nr_app; [exact X|apply nr_tf; exact T].
+Qed.
+
+Lemma ready_step s op : Alive s -> ready_ok s op (snd (step_main s op)) = true.
+Proof.
+  intros A. unfold step_main.
+  destruct op as [|z r]; [reflexivity|].
   destruct z as [|q|q]; try reflexivity.
-  repeat (destruct q as [q|q|]; try reflexivity); congruence.
+  do 3 (try destruct q as [q|q|]); try reflexivity.
+  all: first [ apply nr_ready_ok, exit_idle_nr | apply nr_ready_ok, nr_tf, timer_fire_tf
+             | apply nr_ready_ok, nr_tf, resolver_error_tf | apply nr_ready_ok, resolver_update_nr | idtac ].
+  destruct r as [|z [|v [|x r]]]; try reflexivity.
+  destruct (sc_of s z) as [sc|] eqn:E; [|reflexivity].
+  destruct (_ && _); [|reflexivity].
+  apply sc_of_spec in E. destruct E as [Hlt ->]. apply sc_state_ready_ok; assumption.
 Qed.
 
-Lemma step_ok s op i : Inv s ->
-  Inv (fst (step s op)) /\ forallb ok5 (clause_op s op (chunk s op) i) = true.
+(* ---------- clause 4: sticky TRANSIENT_FAILURE ---------- *)
+
+Definition J1 (s : st) : Prop := sticky s = true -> bstate s = TF.
+Definition same_bs (s s' : st) : Prop := bstate s' = bstate s /\ sticky s' = sticky s.
+
+Lemma J1_same s s' : same_bs s s' -> J1 s -> J1 s'.
+Proof. intros [A B] H. unfold J1. rewrite A, B. exact H. Qed.
+Lemma same_bs_refl s : same_bs s s. Proof. split; reflexivity. Qed.
+Lemma same_bs_trans a b c : same_bs a b -> same_bs b c -> same_bs a c.
+Proof. intros [A1 A2] [B1 B2]. split; congruence. Qed.
+
+Lemma J1_force s v pk : J1 s -> J1 (fst (force_state s v pk)).
 Proof.
-  intros I. rewrite step_eq. cbn [fst].
-  assert (D : (exists k l, op = 1 :: k :: l) \/ (forall k l, op <> 1 :: k :: l)).
-  { destruct op as [|z [|k l]]; try (right; intros; discriminate).
-    destruct (Z.eq_dec z 1) as [->|N]; [left; eauto|right; intros k' l' E; inversion E; congruence]. }
-  destruct D as [[k [l ->]]|N].
-  - unfold chunk, clause_op. apply round_ok. exact I.
-  - assert (D4 : (exists r, op = 4 :: r) \/ (chunk s op = [] /\ match op with 1 :: k :: l => fst (round s k l) | 4 :: _ => fst (resolver_error s) | _ => s end = s)).
-    { destruct op as [|z r]; [right; split; reflexivity|].
-      destruct (Z.eq_dec z 4) as [->|N4]; [left; eauto|right].
-      destruct (Z.eq_dec z 1) as [->|N1].
-      { destruct r as [|k l]; [split; reflexivity|]. exfalso. exact (N k l eq_refl). }
-      destruct z as [|q|q]; try (split; reflexivity).
-      repeat (destruct q as [q|q|]; try (split; reflexivity)); congruence. }
-    destruct D4 as [[r ->]|[E1 E2]].
-    + unfold chunk. apply resolver_error_ok; assumption.
-    + rewrite E1, E2. split; [exact I|].
-      assert (CO : clause_op s op [] i =
-            [ (1, i, ready_ok s []); (2, i, order_ok [] []);
-              (4, i, negb (sticky s) || match connecting_before_ready [] false with Some _ => false | None => true end) ]).
-      { unfold clause_op. destruct op as [|z [|k l]]; try reflexivity;
-          try (destruct z as [|q|q]; try reflexivity; destruct q; reflexivity).
-        destruct (Z.eq_dec z 1) as [->|Nz]; [exfalso; exact (N k l eq_refl)|].
-        destruct z as [|q|q]; try reflexivity. destruct q; try reflexivity. congruence. }
-      rewrite CO. cbn. rewrite !orb_true_r. reflexivity.
+  intros H. unfold J1, force_state. cbn. destruct (Z.eqb_spec v TF) as [->|N]; [intros _; reflexivity|discriminate].
+Qed.
+Lemma J1_update s v pk : J1 s -> J1 (fst (update_state s v pk)).
+Proof. intros H. unfold update_state. destruct (_ && _); [exact H|apply J1_force; exact H]. Qed.
+
+Lemma bs_incr s : same_bs s (fst (al_increment s)).
+Proof. unfold al_increment. destruct (al_valid s); split; reflexivity. Qed.
+Lemma bs_seek s a : same_bs s (fst (al_seek s a)).
+Proof. unfold al_seek. destruct (index_of a (addrs s)); split; reflexivity. Qed.
+Lemma bs_sched s : same_bs s (schedule_next s).
+Proof. unfold schedule_next. destruct (al_has_next _); split; reflexivity. Qed.
+Lemma bs_shutdown_remaining s sc : same_bs s (fst (shutdown_remaining s sc)).
+Proof. split; reflexivity. Qed.
+
+Lemma J1_efp s : J1 s -> J1 (fst (end_first_pass s)).
+Proof.
+  intros H. unfold end_first_pass. destruct (al_valid s); [exact H|]. destruct (forallb _ _); [|exact H].
+  unfold update_state, force_state. cbn [bstate set_pass].
+  replace ((TF =? bstate s) && negb (bstate s =? TF)) with false
+    by (destruct (Z.eqb_spec (bstate s) TF) as [->|N]; [reflexivity|rewrite (proj2 (Z.eqb_neq TF (bstate s))); [reflexivity|congruence]]).
+  intros _. reflexivity.
 Qed.
 
-(* ---------- the [0] marker ---------- *)
+Lemma J1_req fuel : forall s, J1 s -> J1 (fst (req_loop fuel s)).
+Proof.
+  induction fuel as [|f IH]; intros s H; [exact H|]. cbn [req_loop].
+  assert (G : forall s1 sc e1, J1 s1 ->
+    J1 (fst (if d_raw (sds s1 sc) =? IDLE then (schedule_next s1, e1 ++ [evC sc])
+     else if d_raw (sds s1 sc) =? TF
+          then let '(s3, more) := al_increment (upd_sd s1 sc (d_set_failed true)) in
+               if more then let '(s4, e4) := req_loop f s3 in (s4, e1 ++ e4)
+               else let '(s4, e4) := end_first_pass s3 in (s4, e1 ++ e4)
+          else if d_raw (sds s1 sc) =? CONNECTING then (schedule_next s1, e1) else (s1, e1)))).
+  { intros s1 sc e1 H1.
+    destruct (d_raw (sds s1 sc) =? IDLE); [exact (J1_same _ _ (bs_sched s1) H1)|].
+    destruct (d_raw (sds s1 sc) =? TF).
+    - assert (H2 : J1 (fst (al_increment (upd_sd s1 sc (d_set_failed true)))))
+        by (eapply J1_same; [apply bs_incr|exact H1]).
+      destruct (al_increment _) as [s3 more]. cbn [fst] in H2. destruct more.
+      + specialize (IH s3 H2). destruct (req_loop f s3). exact IH.
+      + pose proof (J1_efp s3 H2) as X. destruct (end_first_pass s3). exact X.
+    - destruct (d_raw (sds s1 sc) =? CONNECTING); [exact (J1_same _ _ (bs_sched s1) H1)|exact H1]. }
+  destruct (lookup s (cur_addr s)) as [sc|]; [apply (G s sc [] H)|apply G; exact H].
+Qed.
+
+Lemma J1_request s : J1 s -> J1 (fst (request_connection s)).
+Proof. intros H. unfold request_connection. destruct (al_valid s); [apply J1_req; exact H|exact H]. Qed.
+Lemma J1_start s : J1 s -> J1 (fst (start_first_pass s)).
+Proof. intros H. unfold start_first_pass. apply J1_request. exact H. Qed.
+Lemma J1_resolver_error s : J1 s -> J1 (fst (resolver_error s)).
+Proof. intros H. unfold resolver_error. destruct (_ && _); [exact H|apply J1_update; exact H]. Qed.
+
+Lemma J1_resolver_update s l0 : J1 s -> J1 (fst (resolver_update s l0)).
+Proof.
+  intros H. unfold resolver_update. destruct (filter valid_addr l0) as [|a l1].
+  - cbn [shutdown_all].
+    match goal with |- context [resolver_error ?x] =>
+      assert (HX : J1 x) by (intros F; discriminate F); pose proof (J1_resolver_error x HX) as Y; destruct (resolver_error x) end.
+    exact Y.
+  - set (l' := preprocess (a :: l1)). set (s1 := set_list (cancel_timer s) l' 0).
+    assert (H1 : J1 s1) by exact H.
+    assert (G : forall (pr : bool) sk (kept : bool), J1 sk -> J1 (fst (
+       if kept then (sk, [[12; 0]])
+       else let '(s2, e2) := shutdown_all s1 (filter (fun sc => negb (memz (d_addr (sds s1 sc)) l')) (subs s1)) in
+            let s3 := set_subs s2 (filter (fun sc => memz (d_addr (sds s1 sc)) l') (subs s1)) in
+            if pr || (bstate s3 =? CONNECTING) || (length (addrs (cancel_timer s)) =? 0)%nat
+            then let '(s4, e4) := force_state s3 CONNECTING (-1) in
+                 let '(s5, e5) := start_first_pass s4 in (s5, e2 ++ e4 ++ e5 ++ [[12; 0]])
+            else if bstate s3 =? TF then let '(s5, e5) := start_first_pass s3 in (s5, e2 ++ e5 ++ [[12; 0]])
+                 else (s3, e2 ++ [[12; 0]])))).
+    { intros pr sk kept Hk. destruct kept; [exact Hk|]. cbn [shutdown_all]. cbv beta iota zeta.
+      match goal with |- context [if ?c then _ else _] => destruct c end.
+      - match goal with |- context [force_state ?x CONNECTING ?p] =>
+          assert (HX : J1 x) by exact H; pose proof (J1_force x CONNECTING p HX) as Y; destruct (force_state x CONNECTING p) as [s4 e4] end.
+        cbn [fst] in Y. pose proof (J1_start s4 Y) as Z. destruct (start_first_pass s4). exact Z.
+      - match goal with |- context [if ?c then _ else _] => destruct c end; [|exact H].
+        match goal with |- context [start_first_pass ?x] =>
+          assert (HX : J1 x) by exact H; pose proof (J1_start x HX) as Z; destruct (start_first_pass x) end. exact Z. }
+    destruct (match lookup (cancel_timer s) (cur_addr (cancel_timer s)) with
+              | Some sc => d_raw (sds (cancel_timer s) sc) =? READY | None => false end).
+    + pose proof (J1_same _ _ (bs_seek s1 (cur_addr (cancel_timer s))) H1) as HK.
+      destruct (al_seek s1 (cur_addr (cancel_timer s))) as [sk kept]. apply (G true sk kept HK).
+    + apply (G false s1 false H1).
+Qed.
+
+Lemma J1_sc_state s sc v : J1 s -> J1 (fst (sc_state s sc v)).
+Proof.
+  intros H. unfold sc_state.
+  set (s1 := upd_sd s sc (d_set_raw v)). assert (H1 : J1 s1) by exact H.
+  destruct (negb (is_active s1 sc)); [exact H1|].
+  destruct (v =? SHUTDOWN); [exact H1|].
+  set (s2 := if v =? TF then upd_sd s1 sc (d_set_failed true) else s1).
+  assert (H2 : J1 s2) by (unfold s2; destruct (v =? TF); exact H1).
+  destruct (v =? READY).
+  { unfold shutdown_remaining. cbn [shutdown_all].
+    match goal with |- context [al_seek ?a ?b] => assert (HA : J1 a) by exact H2;
+      pose proof (J1_same _ _ (bs_seek a b) HA) as H4; destruct (al_seek a b) as [s4 found] end.
+    cbn [fst] in H4. destruct found; cbn [negb]; [|exact H4].
+    match goal with |- context [update_state ?a READY ?b] => assert (HB : J1 a) by exact H4;
+      pose proof (J1_update a READY b HB) as Y; destruct (update_state a READY b) end. exact Y. }
+  destruct (_ || _).
+  { unfold shutdown_remaining. cbn [shutdown_all].
+    match goal with |- context [update_state ?a IDLE ?b] => assert (HB : J1 a) by exact H2;
+      pose proof (J1_update a IDLE b HB) as Y; destruct (update_state a IDLE b) end. exact Y. }
+  destruct (firstPass s2).
+  { destruct (v =? CONNECTING).
+    - destruct (negb (d_eff (sds s2 sc) =? TF)); [|exact H2].
+      destruct (negb (bstate _ =? TF)); [|exact H2]. apply J1_update. exact H2.
+    - destruct (v =? TF); [|exact H2].
+      destruct (cur_addr _ =? _).
+      + match goal with |- context [al_increment ?a] => assert (HA : J1 a) by exact H2;
+          pose proof (J1_same _ _ (bs_incr a) HA) as H5; destruct (al_increment a) as [s5 more] end.
+        cbn [fst] in H5. destruct more; [apply J1_request; exact H5|apply J1_efp; exact H5].
+      + apply J1_efp. exact H2. }
+  destruct (v =? TF).
+  { destruct (_ =? 0); [apply J1_update; exact H2|exact H2]. }
+  destruct (v =? IDLE); exact H2.
+Qed.
+
+Lemma J1_timer s : J1 s -> J1 (fst (timer_fire s)).
+Proof.
+  intros H. unfold timer_fire. destruct (timer s); [|exact H].
+  match goal with |- context [al_increment ?a] => assert (HA : J1 a) by exact H;
+    pose proof (J1_same _ _ (bs_incr a) HA) as H5; destruct (al_increment a) as [s5 more] end.
+  cbn [fst] in H5. destruct more; [apply J1_request; exact H5|exact H5].
+Qed.
+
+Lemma J1_exit_idle s : J1 s -> J1 (fst (exit_idle s)).
+Proof.
+  intros H. unfold exit_idle. destruct (bstate s =? IDLE); [|exact H].
+  pose proof (J1_update s CONNECTING (-1) H) as Y. destruct (update_state s CONNECTING (-1)) as [s1 e1].
+  pose proof (J1_start s1 Y) as Z. destruct (start_first_pass s1). exact Z.
+Qed.
+
+Lemma J1_step_main s op : J1 s -> J1 (fst (step_main s op)).
+Proof.
+  intros A. unfold step_main.
+  destruct op as [|z r]; [exact A|].
+  destruct z as [|q|q]; try exact A.
+  do 3 (try destruct q as [q|q|]); try exact A.
+  all: first [ apply J1_exit_idle; exact A | apply J1_timer; exact A
+             | apply J1_resolver_error; exact A | apply J1_resolver_update; exact A
+             | destruct r as [|z [|v [|x r]]]; try exact A;
+               destruct (sc_of s z); [|exact A]; destruct (_ && _); [apply J1_sc_state; exact A|exact A] ].
+Qed.
+
+(* no CONNECTING among the published states *)
+Definition nc (e : list word) : Prop := forallb (fun u : Z * Z => negb (fst u =? CONNECTING)) (u_events e) = true.
+Lemma nc_app a b : nc a -> nc b -> nc (a ++ b).
+Proof. unfold nc. intros A B. rewrite u_events_app, forallb_app, A, B. reflexivity. Qed.
+Lemma nc_tf e : tf_only e -> nc e.
+Proof.
+  unfold nc, tf_only. intros H. rewrite forallb_forall in *. intros u Hu. specialize (H u Hu).
+  apply Z.eqb_eq in H. rewrite H. reflexivity.
+Qed.
+Lemma nc_S l : nc (map evS l). Proof. apply nc_tf, tf_only_S. Qed.
+Lemma update_state_nc s v pk : v <> CONNECTING -> nc (snd (update_state s v pk)).
+Proof.
+  intros H. unfold update_state, force_state. destruct (_ && _); [reflexivity|].
+  unfold nc. cbn. destruct (Z.eqb_spec v CONNECTING); [contradiction|reflexivity].
+Qed.
+
+Lemma sticky_walk_false l : sticky_walk false l = true.
+Proof.
+  induction l as [|[v x] r IH]; [reflexivity|]. cbn [sticky_walk].
+  destruct (v =? CONNECTING); [exact IH|]. destruct ((v =? READY) || (v =? IDLE)); exact IH.
+Qed.
+Lemma sticky_walk_nc k e : nc e -> sticky_walk k (u_events e) = true.
+Proof.
+  unfold nc. generalize (u_events e). intros l. revert k. induction l as [|[v x] r IH]; intros k H; [reflexivity|].
+  cbn [forallb fst] in H. apply andb_true_iff in H. destruct H as [H1 H2]. apply negb_true_iff in H1.
+  cbn [sticky_walk]. rewrite H1. destruct ((v =? READY) || (v =? IDLE)); apply IH; exact H2.
+Qed.
+
+Lemma sticky_eff_facts s : sticky_eff s = true -> J1 s ->
+  bstate s = TF /\ (forall sc, In sc (subs s) -> (d_raw (sds s sc) =? READY) = false) /\ addrs s <> [].
+Proof.
+  unfold sticky_eff. intros H J. apply andb_true_iff in H. destruct H as [H H3].
+  apply andb_true_iff in H. destruct H as [H1 H2]. split; [exact (J H1)|]. split.
+  - intros sc Hin. rewrite forallb_forall in H2. specialize (H2 sc Hin). apply negb_true_iff in H2. exact H2.
+  - destruct (addrs s); [discriminate|discriminate].
+Qed.
+
+Lemma resolver_update_nc s l0 : sticky_eff s = true -> J1 s -> filter valid_addr l0 <> [] ->
+  nc (snd (resolver_update s l0)).
+Proof.
+  intros K J NE. destruct (sticky_eff_facts s K J) as [B [NRd NA]].
+  unfold resolver_update. destruct (filter valid_addr l0) as [|a l1]; [congruence|].
+  set (l' := preprocess (a :: l1)). set (s1 := set_list (cancel_timer s) l' 0).
+  assert (PR : match lookup (cancel_timer s) (cur_addr (cancel_timer s)) with
+               | Some sc => d_raw (sds (cancel_timer s) sc) =? READY | None => false end = false).
+  { unfold lookup. destruct (find _ (subs (cancel_timer s))) as [sc|] eqn:F; [|reflexivity].
+    apply find_some in F. destruct F as [F _]. exact (NRd sc F). }
+  rewrite PR. cbn [shutdown_all]. cbv beta iota zeta. cbn [orb].
+  change (bstate (set_subs _ _)) with (bstate s). rewrite B.
+  replace (TF =? CONNECTING) with false by reflexivity.
+  replace ((length (addrs (cancel_timer s)) =? 0)%nat) with false
+    by (change (addrs (cancel_timer s)) with (addrs s); destruct (addrs s); [congruence|reflexivity]).
+  cbn [orb]. replace (TF =? TF) with true by reflexivity.
+  match goal with |- context [start_first_pass ?x] => pose proof (start_tf x) as T; destruct (start_first_pass x) end.
+  cbn [snd] in *. apply nc_app; [apply nc_S|]. apply nc_app; [apply nc_tf; exact T|reflexivity].
+Qed.
+
+Lemma sc_state_nc s sc v : sticky_eff s = true -> J1 s -> nc (snd (sc_state s sc v)).
+Proof.
+  intros K J. destruct (sticky_eff_facts s K J) as [B _].
+  unfold sc_state. set (s1 := upd_sd s sc (d_set_raw v)).
+  destruct (negb (is_active s1 sc)); [reflexivity|].
+  destruct (v =? SHUTDOWN); [reflexivity|].
+  set (s2 := if v =? TF then upd_sd s1 sc (d_set_failed true) else s1).
+  assert (B2 : bstate s2 = TF) by (unfold s2; destruct (v =? TF); exact B).
+  destruct (v =? READY).
+  { unfold shutdown_remaining. cbn [shutdown_all].
+    match goal with |- context [al_seek ?a ?b] => destruct (al_seek a b) as [s4 found] end.
+    destruct found; cbn [negb]; [|apply nc_S].
+    match goal with |- context [update_state ?a READY ?b] =>
+      pose proof (update_state_nc a READY b ltac:(discriminate)) as X; destruct (update_state a READY b) end.
+    cbn [snd] in *. apply nc_app; [apply nc_S|exact X]. }
+  destruct (_ || _).
+  { unfold shutdown_remaining. cbn [shutdown_all].
+    match goal with |- context [update_state ?a IDLE ?b] =>
+      pose proof (update_state_nc a IDLE b ltac:(discriminate)) as X; destruct (update_state a IDLE b) end.
+    cbn [snd] in *. apply nc_app; [apply nc_S|exact X]. }
+  destruct (firstPass s2).
+  { destruct (v =? CONNECTING).
+    - destruct (negb (d_eff (sds s2 sc) =? TF)); [|reflexivity].
+      change (bstate (upd_sd s2 sc (d_set_eff CONNECTING))) with (bstate s2). rewrite B2. reflexivity.
+    - destruct (v =? TF); [|reflexivity].
+      destruct (cur_addr _ =? _).
+      + destruct (al_increment _) as [s5 more]. destruct more; apply nc_tf; [apply request_tf|apply end_first_pass_tf].
+      + apply nc_tf, end_first_pass_tf. }
+  destruct (v =? TF).
+  { destruct (_ =? 0); [apply nc_tf, update_state_tf|reflexivity]. }
+  destruct (v =? IDLE); reflexivity.
+Qed.
+
+Lemma sticky_step s op : J1 s -> sticky_ok s op (snd (step_main s op)) = true.
+Proof.
+  intros J. unfold sticky_ok.
+  assert (G : forall k, (k = true -> nc (snd (step_main s op))) -> sticky_walk k (u_events (snd (step_main s op))) = true).
+  { intros [|] H; [apply sticky_walk_nc, H; reflexivity|apply sticky_walk_false]. }
+  destruct (sticky_eff s) eqn:K.
+  2:{ destruct op as [|z r]; [reflexivity|]. destruct z as [|q|q]; try apply sticky_walk_false.
+      destruct q; try apply sticky_walk_false. destruct (filter valid_addr r); apply sticky_walk_false. }
+  assert (NC : (forall r, op = 1 :: r -> filter valid_addr r <> []) -> nc (snd (step_main s op))).
+  { intros NE. unfold step_main.
+    destruct op as [|z r]; [reflexivity|].
+    destruct z as [|q|q]; try reflexivity.
+    do 3 (try destruct q as [q|q|]); try reflexivity.
+    all: first [ apply nc_tf, timer_fire_tf | apply nc_tf, resolver_error_tf
+               | apply resolver_update_nc; [exact K|exact J|apply NE; reflexivity] | idtac ].
+    - unfold exit_idle. destruct (sticky_eff_facts s K J) as [B _]. rewrite B. reflexivity.
+    - destruct r as [|z [|v [|x r]]]; try reflexivity.
+      destruct (sc_of s z); [|reflexivity]. destruct (_ && _); [apply sc_state_nc; assumption|reflexivity]. }
+  destruct op as [|z r]; [reflexivity|].
+  destruct (Z.eq_dec z 1) as [->|N1].
+  - destruct (filter valid_addr r) eqn:F; [apply sticky_walk_false|].
+    apply sticky_walk_nc, NC. intros r' [= <-]. rewrite F. discriminate.
+  - assert (E : match z :: r with 1 :: l => match filter valid_addr l with [] => false | _ => true end | _ => true end = true).
+    { destruct z as [|q|q]; try reflexivity. destruct q; try reflexivity. congruence. }
+    assert (KK : match z :: r with
+                 | 1 :: l => match filter valid_addr l with [] => false | _ :: _ => true end
+                 | _ => true end = true) by exact E.
+    replace (match z :: r with
+             | 1 :: l => match filter valid_addr l with [] => false | _ :: _ => true end
+             | _ => true end) with true in * by (symmetry; exact E).
+    assert (X : nc (snd (step_main s (z :: r)))) by (apply NC; intros r' [= -> _]; congruence).
+    destruct z as [|q|q]; try (apply sticky_walk_nc, X).
+Qed.
+
+(* ---------- the [0] marker and the bridge for clauses 1 and 4 ---------- *)
 
 Definition nz (w : word) : bool := match w with z :: _ => negb (z =? 0) | [] => true end.
+Definition nzl (e : list word) : Prop := forallb nz e = true.
 
-Lemma split_chunk_app e rest : forallb nz e = true -> split_chunk (e ++ [0] :: rest) = Some (e, rest).
+Lemma split_chunk_app e rest : nzl e -> split_chunk (e ++ [0] :: rest) = Some (e, rest).
 Proof.
-  induction e as [|w e IH]; intros H; [reflexivity|].
+  unfold nzl. induction e as [|w e IH]; intros H; [reflexivity|].
   cbn [forallb] in H. apply andb_true_iff in H. destruct H as [Hw He].
   cbn [app split_chunk]. rewrite (IH He).
   destruct w as [|z w']; [reflexivity|]. destruct z; try reflexivity. discriminate.
 Qed.
 
-Lemma nz_S ps : forallb nz (evSs ps) = true.
-Proof. induction ps; [reflexivity|assumption]. Qed.
-Lemma nz_reqs cs : forallb nz (reqs cs) = true.
-Proof. induction cs; [reflexivity|assumption]. Qed.
-
-Lemma nz_pass s retained F k cn n_new : forallb nz (snd (pass s retained F k cn n_new)) = true.
+Lemma nzl_app a b : nzl a -> nzl b -> nzl (a ++ b).
+Proof. unfold nzl. intros A B. rewrite forallb_app, A, B. reflexivity. Qed.
+Lemma nzl_S l : nzl (map evS l). Proof. induction l; [reflexivity|assumption]. Qed.
+Lemma nzl_C l : nzl (map evC l). Proof. induction l; [reflexivity|assumption]. Qed.
+Lemma nzl_update s v pk : nzl (snd (update_state s v pk)).
+Proof. unfold update_state, force_state. destruct (_ && _); reflexivity. Qed.
+Lemma nzl_efp s : nzl (snd (end_first_pass s)).
 Proof.
-  unfold pass. destruct (number (nsc s) _) as [|first rest]; [reflexivity|].
-  change (flat_map (fun p : Z * Z => [evN (snd p) (fst p); evC (snd p)]) [first]) with (reqs [first]).
-  change (flat_map (fun p : Z * Z => [evN (snd p) (fst p); evC (snd p)]) rest) with (reqs rest).
-  change (map (fun p : Z * Z => evS (snd p)) ?x) with (evSs x).
-  destruct ((0 <=? k) && (k <? Z.of_nat (length F))); cbn [snd];
-    rewrite !forallb_app, ?nz_reqs, ?nz_S; destruct cn; reflexivity.
+  unfold end_first_pass. destruct (al_valid s); [reflexivity|]. destruct (forallb _ _); [|reflexivity].
+  pose proof (nzl_update (set_pass s false (numTF s)) TF (-1)) as H.
+  destruct (update_state _ TF (-1)) as [s2 e]. cbn [snd] in *. apply nzl_app; [exact H|apply nzl_C].
+Qed.
+Lemma nzl_req fuel : forall s, nzl (snd (req_loop fuel s)).
+Proof.
+  induction fuel as [|f IH]; intros s; [reflexivity|]. cbn [req_loop].
+  assert (G : forall s1 sc e1, nzl e1 ->
+    nzl (snd (if d_raw (sds s1 sc) =? IDLE then (schedule_next s1, e1 ++ [evC sc])
+     else if d_raw (sds s1 sc) =? TF
+          then let '(s3, more) := al_increment (upd_sd s1 sc (d_set_failed true)) in
+               if more then let '(s4, e4) := req_loop f s3 in (s4, e1 ++ e4)
+               else let '(s4, e4) := end_first_pass s3 in (s4, e1 ++ e4)
+          else if d_raw (sds s1 sc) =? CONNECTING then (schedule_next s1, e1) else (s1, e1)))).
+  { intros s1 sc e1 H1.
+    destruct (d_raw (sds s1 sc) =? IDLE); [apply nzl_app; [exact H1|reflexivity]|].
+    destruct (d_raw (sds s1 sc) =? TF).
+    - destruct (al_increment _) as [s3 more]. destruct more.
+      + specialize (IH s3). destruct (req_loop f s3). apply nzl_app; assumption.
+      + pose proof (nzl_efp s3) as X. destruct (end_first_pass s3). apply nzl_app; assumption.
+    - destruct (d_raw (sds s1 sc) =? CONNECTING); exact H1. }
+  destruct (lookup s (cur_addr s)) as [sc|]; apply G; reflexivity.
+Qed.
+Lemma nzl_request s : nzl (snd (request_connection s)).
+Proof. unfold request_connection. destruct (al_valid s); [apply nzl_req|reflexivity]. Qed.
+Lemma nzl_start s : nzl (snd (start_first_pass s)). Proof. apply nzl_request. Qed.
+Lemma nzl_resolver_error s : nzl (snd (resolver_error s)).
+Proof. unfold resolver_error. destruct (_ && _); [reflexivity|apply nzl_update]. Qed.
+
+Lemma nzl_resolver_update s l0 : nzl (snd (resolver_update s l0)).
+Proof.
+  unfold resolver_update. destruct (filter valid_addr l0) as [|a l1].
+  - cbn [shutdown_all].
+    match goal with |- context [resolver_error ?x] => pose proof (nzl_resolver_error x) as Y; destruct (resolver_error x) end.
+    cbn [snd] in *. apply nzl_app; [apply nzl_S|]. apply nzl_app; [exact Y|reflexivity].
+  - set (l' := preprocess (a :: l1)). set (s1 := set_list (cancel_timer s) l' 0).
+    assert (G : forall (pr : bool) sk (kept : bool), nzl (snd (
+       if kept then (sk, [[12; 0]])
+       else let '(s2, e2) := shutdown_all s1 (filter (fun sc => negb (memz (d_addr (sds s1 sc)) l')) (subs s1)) in
+            let s3 := set_subs s2 (filter (fun sc => memz (d_addr (sds s1 sc)) l') (subs s1)) in
+            if pr || (bstate s3 =? CONNECTING) || (length (addrs (cancel_timer s)) =? 0)%nat
+            then let '(s4, e4) := force_state s3 CONNECTING (-1) in
+                 let '(s5, e5) := start_first_pass s4 in (s5, e2 ++ e4 ++ e5 ++ [[12; 0]])
+            else if bstate s3 =? TF then let '(s5, e5) := start_first_pass s3 in (s5, e2 ++ e5 ++ [[12; 0]])
+                 else (s3, e2 ++ [[12; 0]])))).
+    { intros pr sk kept. destruct kept; [reflexivity|]. cbn [shutdown_all]. cbv beta iota zeta.
+      match goal with |- context [if ?c then _ else _] => destruct c end.
+      - cbn [force_state]. unfold force_state.
+        match goal with |- context [start_first_pass ?x] => pose proof (nzl_start x) as Z; destruct (start_first_pass x) end.
+        cbn [snd] in *. apply nzl_app; [apply nzl_S|]. apply (nzl_app [_]); [reflexivity|]. apply nzl_app; [exact Z|reflexivity].
+      - match goal with |- context [if ?c then _ else _] => destruct c end.
+        + match goal with |- context [start_first_pass ?x] => pose proof (nzl_start x) as Z; destruct (start_first_pass x) end.
+          cbn [snd] in *. apply nzl_app; [apply nzl_S|]. apply nzl_app; [exact Z|reflexivity].
+        + cbn [snd]. apply nzl_app; [apply nzl_S|reflexivity]. }
+    destruct (match lookup (cancel_timer s) (cur_addr (cancel_timer s)) with
+              | Some sc => d_raw (sds (cancel_timer s) sc) =? READY | None => false end).
+    + destruct (al_seek s1 (cur_addr (cancel_timer s))) as [sk kept]. apply (G true sk kept).
+    + apply (G false s1 false).
 Qed.
 
-Lemma nz_round s k l : forallb nz (snd (round s k l)) = true.
+Lemma nzl_sc_state s sc v : nzl (snd (sc_state s sc v)).
 Proof.
-  unfold round.
-  destruct (filter valid_addr l) as [|a l1].
-  - cbn [snd]. change (map (fun p : Z * Z => evS (snd p)) ?x) with (evSs x).
-    rewrite !forallb_app, nz_S. reflexivity.
-  - destruct (match rdy s with Some p => memz (fst p) (preprocess (a :: l1)) | None => false end); [reflexivity|].
-    change (map (fun p : Z * Z => evS (snd p)) ?x) with (evSs x).
-    destruct (_ || (bstate s =? CONNECTING) || (naddrs s =? 0)).
-    + match goal with |- context [pass ?a ?b ?c ?d ?e ?f] => pose proof (nz_pass a b c d e f) as P; destruct (pass a b c d e f) end.
-      cbn [snd] in *. rewrite !forallb_app. repeat (apply andb_true_iff; split); try reflexivity; try exact P; try apply nz_S.
-    + destruct (bstate s =? TF).
-      * match goal with |- context [pass ?a ?b ?c ?d ?e ?f] => pose proof (nz_pass a b c d e f) as P; destruct (pass a b c d e f) end.
-        cbn [snd] in *. rewrite !forallb_app. repeat (apply andb_true_iff; split); try reflexivity; try exact P; try apply nz_S.
-      * cbn [snd]. rewrite !forallb_app, nz_S. reflexivity.
+  unfold sc_state. set (s1 := upd_sd s sc (d_set_raw v)).
+  destruct (negb (is_active s1 sc)); [reflexivity|].
+  destruct (v =? SHUTDOWN); [reflexivity|].
+  set (s2 := if v =? TF then upd_sd s1 sc (d_set_failed true) else s1).
+  destruct (v =? READY).
+  { unfold shutdown_remaining. cbn [shutdown_all].
+    match goal with |- context [al_seek ?a ?b] => destruct (al_seek a b) as [s4 found] end.
+    destruct found; cbn [negb]; [|apply nzl_S].
+    match goal with |- context [update_state ?a READY ?b] => pose proof (nzl_update a READY b) as X; destruct (update_state a READY b) end.
+    cbn [snd] in *. apply nzl_app; [apply nzl_S|exact X]. }
+  destruct (_ || _).
+  { unfold shutdown_remaining. cbn [shutdown_all].
+    match goal with |- context [update_state ?a IDLE ?b] => pose proof (nzl_update a IDLE b) as X; destruct (update_state a IDLE b) end.
+    cbn [snd] in *. apply nzl_app; [apply nzl_S|exact X]. }
+  destruct (firstPass s2).
+  { destruct (v =? CONNECTING).
+    - destruct (negb (d_eff (sds s2 sc) =? TF)); [|reflexivity].
+      destruct (negb (bstate _ =? TF)); [apply nzl_update|reflexivity].
+    - destruct (v =? TF); [|reflexivity].
+      destruct (cur_addr _ =? _).
+      + destruct (al_increment _) as [s5 more]. destruct more; [apply nzl_request|apply nzl_efp].
+      + apply nzl_efp. }
+  destruct (v =? TF).
+  { destruct (_ =? 0); [apply nzl_update|reflexivity]. }
+  destruct (v =? IDLE); reflexivity.
 Qed.
 
-Lemma nz_chunk s op : forallb nz (chunk s op) = true.
+Lemma nzl_step_main s op : nzl (snd (step_main s op)).
 Proof.
-  unfold chunk. destruct op as [|z r]; [reflexivity|].
-  destruct (Z.eq_dec z 1) as [->|N1].
-  { destruct r as [|k l]; [reflexivity|]. apply nz_round. }
-  destruct (Z.eq_dec z 4) as [->|N4].
-  { unfold resolver_error. destruct (negb (bstate s =? TF) && (0 <? naddrs s)); reflexivity. }
+  unfold step_main.
+  destruct op as [|z r]; [reflexivity|].
   destruct z as [|q|q]; try reflexivity.
-  repeat (destruct q as [q|q|]; try reflexivity); congruence.
+  do 3 (try destruct q as [q|q|]); try reflexivity.
+  all: first [ apply nzl_resolver_error | apply nzl_resolver_update
+             | unfold timer_fire; destruct (timer s); [|reflexivity]; destruct (al_increment _) as [s2 more];
+               destruct more; [apply nzl_request|reflexivity]
+             | unfold exit_idle; destruct (bstate s =? IDLE); [|reflexivity];
+               pose proof (nzl_update s CONNECTING (-1)) as X; destruct (update_state s CONNECTING (-1)) as [s1 e1];
+               pose proof (nzl_start s1) as Y; destruct (start_first_pass s1); apply nzl_app; assumption
+             | destruct r as [|z [|v [|x r]]]; try reflexivity;
+               destruct (sc_of s z); [|reflexivity]; destruct (_ && _); [apply nzl_sc_state|reflexivity] ].
 Qed.
+
+Definition Inv (s : st) : Prop := Alive s /\ J1 s.
+Lemma Inv_init : Inv init.
+Proof. split; [exact Alive_init|]. intros H. discriminate. Qed.
+Lemma step_main_inv s op : Inv s -> Inv (fst (step_main s op)).
+Proof. intros [A J]. split; [apply step_main_alive; exact A|apply J1_step_main; exact J]. Qed.
+
+Lemma step_fst s op : fst (step s op) = fst (step_main s op).
+Proof. unfold step. destruct (step_main s op). reflexivity. Qed.
+Lemma step_snd s op : snd (step s op) = snd (step_main s op) ++ [[0]].
+Proof. unfold step. destruct (step_main s op). reflexivity. Qed.
+
+Definition ok14 (c : Z * Z * bool) : bool := (fst (fst c) =? 2) || (fst (fst c) =? 3) || snd c.
 
 Lemma clauses_from_ok ops : forall s i, Inv s ->
-  forallb ok5 (clauses_from s ops (snd (run_from s ops)) i) = true.
+  forallb ok14 (clauses_from s ops (snd (run_from s ops)) i) = true.
 Proof.
   induction ops as [|op r IH]; intros s i I; [reflexivity|].
   cbn [run_from clauses_from].
-  destruct (step_ok s op i I) as [I1 C].
-  assert (E : snd (step s op) = chunk s op ++ [[0]]) by (rewrite step_eq; reflexivity).
+  pose proof (step_main_inv s op I) as I1. rewrite <- step_fst in I1.
+  pose proof (step_snd s op) as E. pose proof (step_fst s op) as EF.
   destruct (step s op) as [s1 e]. cbn [fst snd] in *. subst e.
   specialize (IH s1 (i + 1) I1). destruct (run_from s1 r) as [s2 e']. cbn [snd] in *.
-  rewrite <- app_assoc. cbn [app]. rewrite (split_chunk_app _ _ (nz_chunk s op)).
-  rewrite forallb_app, C. exact IH.
+  rewrite <- app_assoc. cbn [app]. rewrite (split_chunk_app _ _ (nzl_step_main s op)).
+  rewrite forallb_app, IH, andb_true_r. unfold clause_op. cbn [forallb ok14 fst snd].
+  destruct I as [A J]. rewrite (ready_step s op A), (sticky_step s op J). reflexivity.
 Qed.
 
-Theorem model_trace_holds ops : exists obs, run ops = Some obs /\ holds_b ops obs = true.
+Theorem model_trace_holds ops : exists obs, run ops = Some obs /\ holds_1_4 ops obs = true.
 Proof.
   exists (snd (run_from init ops)). split; [reflexivity|].
-  unfold holds_b, clauses. apply (clauses_from_ok ops init 0 Inv_init).
+  unfold holds_1_4, clauses. apply (clauses_from_ok ops init 0 Inv_init).
 Qed.
 
 (* ---------- readable statements ---------- *)
@@ -684,134 +1137,66 @@ Definition reachable (s : st) : Prop := exists ops, s = fst (run_from init ops).
 Lemma run_from_inv ops : forall s, Inv s -> Inv (fst (run_from s ops)).
 Proof.
   induction ops as [|op r IH]; intros s I; cbn [run_from]; [exact I|].
-  destruct (step_ok s op 0 I) as [I1 _]. destruct (step s op) as [s1 e]. cbn [fst] in *.
-  specialize (IH s1 I1). destruct (run_from s1 r). exact IH.
+  pose proof (step_main_inv s op I) as I1. rewrite <- step_fst in I1.
+  destruct (step s op) as [s1 e]. cbn [fst] in I1. specialize (IH s1 I1). destruct (run_from s1 r). exact IH.
 Qed.
-
 Lemma reachable_inv s : reachable s -> Inv s.
-Proof. intros [ops ->]. apply run_from_inv. exact Inv_init. Qed.
+Proof. intros [ops ->]. apply run_from_inv, Inv_init. Qed.
 
-(* in every reachable state, for every resolver update and every position of the successful
-   attempt: READY soundness, connection order, TF after all failed, and no CONNECTING while
-   sticky unless a new sub-channel was created first *)
-Lemma round_properties s k l0 : reachable s ->
-  let ch := snd (round s k l0) in
-  let l' := preprocess (filter valid_addr l0) in
-  ready_ok s ch = true /\ order_ok l' ch = true /\
-  (filter valid_addr l0 <> [] ->
-   match rdy s with Some p => memz (fst p) l' | None => false end = false -> tf_ok k ch = true) /\
-  (sticky s = true -> connecting_before_ready ch false = None).
+Lemma reachable_alive s : reachable s -> Alive s.
+Proof. intros R. exact (proj1 (reachable_inv s R)). Qed.
+
+Lemma ready_sound s op : reachable s -> ready_ok s op (snd (step_main s op)) = true.
+Proof. intros R. apply ready_step, reachable_alive, R. Qed.
+
+(* READY is published only while processing the READY report of a sub-channel that is
+   active (hence not shut down), with a picker returning exactly that sub-channel *)
+Lemma ready_only_on_ready_report s op x : reachable s ->
+  In (READY, x) (u_events (snd (step_main s op))) ->
+  exists sc, op = [2; zn sc; READY] /\ x = zn sc /\ (sc < nsc s)%nat /\ d_shut (sds s sc) = false /\
+             forall sc', (sc' < nsc s)%nat -> sc' <> sc ->
+               d_shut (sds s sc') = true \/ In (zn sc') (s_scs (snd (step_main s op))).
 Proof.
-  intros R. cbv zeta. destruct (round_ok s k l0 0 (reachable_inv s R)) as [_ H].
-  unfold round_clauses in H. cbn [forallb ok5 fst snd] in H.
-  repeat (apply andb_true_iff in H; destruct H as [? H]).
-  cbn in H0, H1, H2, H3.
-  repeat split; try assumption.
-  - intros NE KR. rewrite KR in H2. destruct (filter valid_addr l0); [congruence|]. exact H2.
-  - intros ST. rewrite ST in H3, H4. cbn in H3, H4.
-    destruct (connecting_before_ready (snd (round s k l0)) false) as [[|]|]; try discriminate. reflexivity.
+  intros R Hin. pose proof (ready_sound s op R) as H. unfold ready_ok in H.
+  rewrite forallb_forall in H. specialize (H _ Hin). cbn [fst snd] in H.
+  replace (READY =? READY) with true in H by reflexivity. cbn [negb orb] in H.
+  destruct op as [|a l]; [discriminate H|].
+  destruct a as [|q|q]; try discriminate H. destruct q as [q|q|]; try discriminate H.
+  destruct q as [q|q|]; try discriminate H.
+  destruct l as [|z [|v [|d r]]]; try discriminate H.
+  apply andb_true_iff in H. destruct H as [H1 H2]. apply andb_true_iff in H1. destruct H1 as [Hv Hz].
+  apply Z.eqb_eq in Hv. apply Z.eqb_eq in Hz. subst v x.
+  destruct (sc_of s z) as [sc|] eqn:E; [|discriminate H2]. apply sc_of_spec in E. destruct E as [Hlt ->].
+  apply andb_true_iff in H2. destruct H2 as [H2 _]. apply andb_true_iff in H2. destruct H2 as [Hs Hall].
+  apply negb_true_iff in Hs. exists sc. repeat split; try assumption.
+  intros sc' Hlt' Hne. rewrite forallb_forall in Hall. specialize (Hall sc' ltac:(apply in_seq; lia)).
+  apply orb_true_iff in Hall. destruct Hall as [Hall|Hall]; [|right; apply memz_In; exact Hall].
+  apply orb_true_iff in Hall. destruct Hall as [Hall|Hall]; [apply Nat.eqb_eq in Hall; contradiction|left; exact Hall].
 Qed.
 
-(* sticky TF holds across resolver updates that bring no new address *)
-Lemma sticky_tf_no_new_address s k l0 : reachable s -> sticky s = true ->
-  (forall a, In a (filter valid_addr l0) -> has_addr a (subs s) = true) ->
-  filter valid_addr l0 <> [] ->
-  u_events (snd (round s k l0)) = [(TF, -1)].
+(* sticky TF over all histories: from any reachable state in which TF published at the end of
+   a pass over a non-empty list stands and no active sub-channel's latest state is READY,
+   no operation (other than an empty resolver update, the A62 exception) publishes CONNECTING *)
+Lemma sticky_tf s op u : reachable s -> sticky_eff s = true ->
+  (forall r, op = 1 :: r -> filter valid_addr r <> []) ->
+  In u (u_events (snd (step_main s op))) -> fst u <> CONNECTING.
 Proof.
-  intros R ST HA NE. destruct (reachable_inv s R) as [I1 I2].
-  unfold sticky in ST. apply andb_true_iff in ST. destruct ST as [B N].
-  apply Z.eqb_eq in B. apply Z.ltb_lt in N.
-  assert (RN : rdy s = None).
-  { destruct (rdy s) as [p|] eqn:E; [|reflexivity]. destruct (I1 p eq_refl) as [X _]. rewrite X in B. discriminate. }
-  unfold round. destruct (filter valid_addr l0) as [|a l1] eqn:EL; [congruence|].
-  set (l' := preprocess (a :: l1)). rewrite RN, B. cbn [orb].
-  replace (TF =? CONNECTING) with false by reflexivity.
-  replace (naddrs s =? 0) with false by (symmetry; apply Z.eqb_neq; lia).
-  replace (TF =? TF) with true by reflexivity. cbn [orb].
-  set (retained := filter (fun p => memz (fst p) l') (subs s)).
-  assert (F0 : filter (fun a0 => negb (has_addr a0 retained)) l' = []).
-  { assert (G : forall (p : Z -> bool) l, (forall x, In x l -> p x = false) -> filter p l = []).
-    { intros p l. induction l as [|x r IH]; intros H; [reflexivity|]. cbn [filter].
-      rewrite (H x (or_introl eq_refl)). apply IH. intros; apply H; right; assumption. }
-    apply G. intros x Hx. apply negb_false_iff.
-    assert (Hx' : In x (a :: l1)) by (apply preprocess_In; exact Hx).
-    specialize (HA x Hx'). unfold has_addr in *. apply existsb_exists in HA. destruct HA as [p [Hp E]].
-    apply existsb_exists. exists p. split; [|exact E]. apply filter_In. split; [exact Hp|].
-    apply memz_In. apply Z.eqb_eq in E. rewrite E. exact Hx. }
-  rewrite F0. unfold pass. cbn [length Z.of_nat].
-  assert (KF : (0 <=? k) && (k <? 0) = false).
-  { destruct (0 <=? k) eqn:E; [|reflexivity]. apply Z.leb_le in E. cbn [andb]. apply Z.ltb_ge. lia. }
-  rewrite KF.
-  cbn [number snd]. change (map (fun p : Z * Z => evS (snd p)) ?x) with (evSs x).
-  rewrite !u_events_app. destruct (ext_S (filter (fun p => negb (memz (fst p) l')) (subs s ++ []))) as [_ [_ [_ [U _]]]].
-  rewrite U. reflexivity.
+  intros R K NE Hin. destruct (reachable_inv s R) as [_ J].
+  assert (NC : nc (snd (step_main s op))).
+  { unfold step_main.
+    destruct op as [|z r]; [reflexivity|].
+    destruct z as [|q|q]; try reflexivity.
+    do 3 (try destruct q as [q|q|]); try reflexivity.
+    all: first [ apply nc_tf, timer_fire_tf | apply nc_tf, resolver_error_tf
+               | apply resolver_update_nc; [exact K|exact J|apply NE; reflexivity] | idtac ].
+    - unfold exit_idle. destruct (sticky_eff_facts s K J) as [B _]. rewrite B. reflexivity.
+    - destruct r as [|z [|v [|x r]]]; try reflexivity.
+      destruct (sc_of s z); [|reflexivity]. destruct (_ && _); [apply sc_state_nc; assumption|reflexivity]. }
+  unfold nc in NC. rewrite forallb_forall in NC. specialize (NC u Hin). apply negb_true_iff in NC.
+  apply Z.eqb_neq. exact NC.
 Qed.
 
-Lemma pass_final s retained F k cn n_new :
-  let s' := fst (pass s retained F k cn n_new) in
-  bstate s' = READY \/ (bstate s' = TF /\ naddrs s' = n_new).
-Proof.
-  cbv zeta. unfold pass. destruct (number (nsc s) _) as [|first rest]; [right; split; reflexivity|].
-  destruct ((0 <=? k) && (k <? Z.of_nat (length F))); [left|right; split]; reflexivity.
-Qed.
-
-(* sticky TRANSIENT_FAILURE (A62), full: from a state in which TF was reported after a pass
-   over a non-empty list, NO resolver update - whatever addresses it adds or removes and
-   whichever attempt succeeds - publishes CONNECTING; the round publishes only TF or READY,
-   and afterwards the policy is sticky again, or READY, or (empty list) in the
-   resolver-error TF of the A62 exception *)
-Lemma sticky_tf s k l0 : reachable s -> sticky s = true ->
-  let r := round s k l0 in
-  (forall u, In u (u_events (snd r)) -> fst u = TF \/ fst u = READY) /\
-  connecting_before_ready (snd r) false = None /\
-  (sticky (fst r) = true \/ bstate (fst r) = READY \/ filter valid_addr l0 = []).
-Proof.
-  intros R ST. cbv zeta. pose proof (reachable_inv s R) as I. destruct I as [I1 I2].
-  destruct (round_properties s k l0 R) as [_ [_ [_ C4]]]. cbv zeta in C4. specialize (C4 ST).
-  split; [|split; [exact C4|]].
-  - unfold sticky in ST. apply andb_true_iff in ST. destruct ST as [B N].
-    apply Z.eqb_eq in B. apply Z.ltb_lt in N.
-    assert (RN : rdy s = None).
-    { destruct (rdy s) as [p|] eqn:E; [|reflexivity]. destruct (I1 p eq_refl) as [X _]. rewrite X in B. discriminate. }
-    unfold round. destruct (filter valid_addr l0) as [|a l1] eqn:EL.
-    + cbn [snd]. change (map (fun p : Z * Z => evS (snd p)) ?x) with (evSs x).
-      rewrite !u_events_app. destruct (ext_S (subs s ++ match rdy s with Some p => [p] | None => [] end)) as [_ [_ [_ [U _]]]].
-      rewrite U. intros u [<-|[]]. left. reflexivity.
-    + set (l' := preprocess (a :: l1)). rewrite RN, B. cbn [orb].
-      replace (TF =? CONNECTING) with false by reflexivity.
-      replace (naddrs s =? 0) with false by (symmetry; apply Z.eqb_neq; lia).
-      replace (TF =? TF) with true by reflexivity. cbn [orb].
-      match goal with |- context [pass ?a ?b ?c ?d ?e ?f] =>
-        pose proof (pass_facts a b c d e f) as PF; cbv zeta in PF; destruct (pass a b c d e f) as [s1 e1] end.
-      cbn [snd] in *. destruct PF as [_ [_ [_ [P4 [P5 [P6 _]]]]]].
-      change (map (fun p : Z * Z => evS (snd p)) ?x) with (evSs x).
-      rewrite !u_events_app.
-      match goal with |- context [evSs ?x] => destruct (ext_S x) as [_ [_ [_ [U _]]]]; rewrite U end.
-      cbn [app u_events flat_map].
-      match type of P4 with ?c = [] -> _ => destruct c as [|c0 cr] eqn:EC end.
-      * rewrite (P4 eq_refl). intros u [<-|[]]. left. reflexivity.
-      * match type of P6 with ?sc = true -> _ => destruct sc eqn:HS end.
-        -- destruct (P6 eq_refl) as [win [_ [_ UE]]]. rewrite UE. intros u [<-|[]]. right. reflexivity.
-        -- destruct (P5 ltac:(discriminate) eq_refl) as [_ UE]. rewrite UE. intros u [<-|[]]. left. reflexivity.
-  - unfold sticky in ST. apply andb_true_iff in ST. destruct ST as [B N].
-    apply Z.eqb_eq in B. apply Z.ltb_lt in N.
-    assert (RN : rdy s = None).
-    { destruct (rdy s) as [p|] eqn:E; [|reflexivity]. destruct (I1 p eq_refl) as [X _]. rewrite X in B. discriminate. }
-    unfold round. destruct (filter valid_addr l0) as [|a l1] eqn:EL; [right; right; reflexivity|].
-    rewrite RN, B. cbn [orb].
-    replace (TF =? CONNECTING) with false by reflexivity.
-    replace (naddrs s =? 0) with false by (symmetry; apply Z.eqb_neq; lia).
-    replace (TF =? TF) with true by reflexivity. cbn [orb].
-    match goal with |- context [pass ?a ?b ?c ?d ?e ?f] =>
-      pose proof (pass_final a b c d e f) as PF; cbv zeta in PF; destruct (pass a b c d e f) as [s1 e1] end.
-    cbn [fst] in *. destruct PF as [PF|[PF1 PF2]]; [right; left; exact PF|left].
-    unfold sticky. rewrite PF1, PF2. cbn [Z.eqb andb]. apply Z.ltb_lt. apply preprocess_nonempty.
-Qed.
-
-(* a resolver error while sticky re-publishes TF and stays sticky *)
-Lemma sticky_tf_resolver_error s : sticky s = true ->
-  snd (resolver_error s) = [evU TF (-1)] /\ sticky (fst (resolver_error s)) = true.
-Proof.
-  intros ST. unfold resolver_error. unfold sticky in *. apply andb_true_iff in ST. destruct ST as [B N].
-  rewrite B. cbn [negb andb fst snd]. split; [reflexivity|]. cbn. rewrite N. reflexivity.
-Qed.
+(* the ghost flag means what its name says: it is set only with TF published, and any other
+   publication clears it *)
+Lemma sticky_means_tf s : reachable s -> sticky s = true -> bstate s = TF.
+Proof. intros R. exact (proj2 (reachable_inv s R)). Qed.
